@@ -25,9 +25,19 @@ use serde_json::json;
 use std::collections::VecDeque;
 use std::panic::{catch_unwind, AssertUnwindSafe};
 use std::pin::Pin;
+use std::sync::atomic::{AtomicUsize, Ordering::SeqCst};
 use std::sync::{Arc, Mutex};
 use std::task::{Context, Poll};
 use tokio::io::{AsyncRead, AsyncWrite, ReadBuf};
+
+/// one answer of the peer's socket to a `poll_write` / `poll_flush` call (Lean: `ConnW.WEv`)
+#[derive(Clone, Debug, PartialEq)]
+pub enum WEv {
+    /// poll_write takes min(k, remaining) bytes (k = 0: `Ok(0)`, write_all fails with WriteZero); poll_flush is Ok
+    Accept(usize),
+    /// the call fails: the peer is gone
+    Fail,
+}
 
 pub struct Scripted {
     segs: VecDeque<Vec<u8>>,
@@ -35,17 +45,68 @@ pub struct Scripted {
     /// index (0-based) of the write call that fails: the client is gone / has stopped reading
     fail_write_at: Option<usize>,
     writes: usize,
+    /// answers to successive poll_write / poll_flush calls; exhausted = everything is accepted
+    script: VecDeque<WEv>,
+    /// the data-returning read call (0-based) that fails instead
+    read_err_at: Option<usize>,
+    /// read calls that returned data
+    reads: Arc<AtomicUsize>,
+    /// every `pend_every`-th poll returns Pending once (waking itself) before it answers; 0 = never
+    pend_every: usize,
+    polls: usize,
+    pended: bool,
+    /// at every read call that is answered: (bytes delivered so far, bytes written so far) — what a
+    /// client that stops sending HERE and waits has received
+    marks: Arc<Mutex<Vec<(usize, usize)>>>,
+    delivered: usize,
+}
+
+impl Scripted {
+    fn plain(segs: &[Vec<u8>], written: Arc<Mutex<Vec<u8>>>, fail_write_at: Option<usize>) -> Scripted {
+        Scripted { segs: segs.iter().cloned().collect(), written, fail_write_at, writes: 0, script: VecDeque::new(), read_err_at: None,
+            reads: Arc::new(AtomicUsize::new(0)), pend_every: 0, polls: 0, pended: false, marks: Arc::new(Mutex::new(Vec::new())), delivered: 0 }
+    }
+    /// true = this poll answers Pending (the task is woken at once and polls again)
+    fn pend(&mut self, cx: &mut Context<'_>) -> bool {
+        if self.pend_every == 0 {
+            return false;
+        }
+        if self.pended {
+            self.pended = false;
+            return false;
+        }
+        self.polls += 1;
+        if self.polls % self.pend_every == 0 {
+            self.pended = true;
+            cx.waker().wake_by_ref();
+            return true;
+        }
+        false
+    }
 }
 
 impl AsyncRead for Scripted {
-    fn poll_read(mut self: Pin<&mut Self>, _cx: &mut Context<'_>, buf: &mut ReadBuf<'_>) -> Poll<std::io::Result<()>> {
+    fn poll_read(mut self: Pin<&mut Self>, cx: &mut Context<'_>, buf: &mut ReadBuf<'_>) -> Poll<std::io::Result<()>> {
+        if self.pend(cx) {
+            return Poll::Pending;
+        }
         // skip empty segments (a zero-length read would mean EOF)
         while matches!(self.segs.front(), Some(s) if s.is_empty()) {
             self.segs.pop_front();
         }
+        {
+            let w = self.written.lock().unwrap().len();
+            let d = self.delivered;
+            self.marks.lock().unwrap().push((d, w));
+        }
+        if self.segs.front().is_some() && self.read_err_at == Some(self.reads.load(SeqCst)) {
+            return Poll::Ready(Err(std::io::Error::new(std::io::ErrorKind::ConnectionReset, "connection reset by peer")));
+        }
         if let Some(mut s) = self.segs.pop_front() {
             let n = s.len().min(buf.remaining());
             buf.put_slice(&s[..n]);
+            self.delivered += n;
+            self.reads.fetch_add(1, SeqCst);
             if n < s.len() {
                 let rest = s.split_off(n);
                 self.segs.push_front(rest);
@@ -56,17 +117,36 @@ impl AsyncRead for Scripted {
 }
 
 impl AsyncWrite for Scripted {
-    fn poll_write(mut self: Pin<&mut Self>, _cx: &mut Context<'_>, buf: &[u8]) -> Poll<std::io::Result<usize>> {
+    fn poll_write(mut self: Pin<&mut Self>, cx: &mut Context<'_>, buf: &[u8]) -> Poll<std::io::Result<usize>> {
+        if self.pend(cx) {
+            return Poll::Pending;
+        }
         let i = self.writes;
         self.writes += 1;
         if self.fail_write_at == Some(i) {
             return Poll::Ready(Err(std::io::Error::new(std::io::ErrorKind::BrokenPipe, "client gone")));
         }
-        self.written.lock().unwrap().extend_from_slice(buf);
-        Poll::Ready(Ok(buf.len()))
+        match self.script.pop_front() {
+            Some(WEv::Fail) => Poll::Ready(Err(std::io::Error::new(std::io::ErrorKind::BrokenPipe, "client gone"))),
+            Some(WEv::Accept(k)) => {
+                let n = k.min(buf.len());
+                self.written.lock().unwrap().extend_from_slice(&buf[..n]);
+                Poll::Ready(Ok(n))
+            }
+            None => {
+                self.written.lock().unwrap().extend_from_slice(buf);
+                Poll::Ready(Ok(buf.len()))
+            }
+        }
     }
-    fn poll_flush(self: Pin<&mut Self>, _cx: &mut Context<'_>) -> Poll<std::io::Result<()>> {
-        Poll::Ready(Ok(()))
+    fn poll_flush(mut self: Pin<&mut Self>, cx: &mut Context<'_>) -> Poll<std::io::Result<()>> {
+        if self.pend(cx) {
+            return Poll::Pending;
+        }
+        match self.script.pop_front() {
+            Some(WEv::Fail) => Poll::Ready(Err(std::io::Error::new(std::io::ErrorKind::BrokenPipe, "client gone"))),
+            _ => Poll::Ready(Ok(())),
+        }
     }
     fn poll_shutdown(self: Pin<&mut Self>, _cx: &mut Context<'_>) -> Poll<std::io::Result<()>> {
         Poll::Ready(Ok(()))
@@ -109,6 +189,10 @@ pub enum End {
 pub struct ConnRun {
     pub written: Vec<u8>,
     pub end: End,
+    /// read calls that returned data (only counted by `run_scripted`)
+    pub reads: usize,
+    /// (bytes delivered, bytes written) at every read call of the handler (only by `run`)
+    pub marks: Vec<(usize, usize)>,
 }
 
 pub struct Runner {
@@ -122,7 +206,8 @@ impl Runner {
     /// one connection on a fresh 2-shard server: the segments, then EOF
     pub fn run(&self, cfg: &Cfg, segs: &[Vec<u8>]) -> ConnRun {
         let written = Arc::new(Mutex::new(Vec::new()));
-        let stream = Scripted { segs: segs.iter().cloned().collect(), written: written.clone(), fail_write_at: None, writes: 0 };
+        let stream = Scripted::plain(segs, written.clone(), None);
+        let marks = stream.marks.clone();
         let ccfg = cfg.real();
         let r = catch_unwind(AssertUnwindSafe(|| {
             self.rt.block_on(async move {
@@ -136,7 +221,8 @@ impl Runner {
             Ok(Ok(())) => End::Eof,
         };
         let w = written.lock().unwrap().clone();
-        ConnRun { written: w, end }
+        let m = marks.lock().unwrap().clone();
+        ConnRun { written: w, end, reads: 0, marks: m }
     }
 }
 
@@ -145,7 +231,7 @@ impl Runner {
     /// connections served before it); `fail_write_at` = the write call that fails
     pub fn run_pooled(&self, cfg: &Cfg, segs: &[Vec<u8>], fail_write_at: Option<usize>, pool: Arc<ConnectionPool>) -> ConnRun {
         let written = Arc::new(Mutex::new(Vec::new()));
-        let stream = Scripted { segs: segs.iter().cloned().collect(), written: written.clone(), fail_write_at, writes: 0 };
+        let stream = Scripted::plain(segs, written.clone(), fail_write_at);
         let ccfg = cfg.real();
         let r = catch_unwind(AssertUnwindSafe(|| {
             self.rt.block_on(async move {
@@ -159,7 +245,36 @@ impl Runner {
             Ok(Ok(())) => End::Eof,
         };
         let w = written.lock().unwrap().clone();
-        ConnRun { written: w, end }
+        ConnRun { written: w, end, reads: 0, marks: Vec::new() }
+    }
+}
+
+impl Runner {
+    /// one connection on a fresh 2-shard server with a scripted PEER: the socket answers successive
+    /// poll_write / poll_flush calls as `script` says (partial writes, Ok(0), failures), read call
+    /// `read_err_at` fails, every `pend_every`-th poll is Pending first
+    pub fn run_scripted(&self, cfg: &Cfg, segs: &[Vec<u8>], script: &[WEv], read_err_at: Option<usize>, pend_every: usize) -> ConnRun {
+        let written = Arc::new(Mutex::new(Vec::new()));
+        let reads = Arc::new(AtomicUsize::new(0));
+        let mut stream = Scripted::plain(segs, written.clone(), None);
+        stream.script = script.iter().cloned().collect();
+        stream.read_err_at = read_err_at;
+        stream.reads = reads.clone();
+        stream.pend_every = pend_every;
+        let ccfg = cfg.real();
+        let r = catch_unwind(AssertUnwindSafe(|| {
+            self.rt.block_on(async move {
+                let state = ShardedActorState::with_shards(2);
+                tokio::time::timeout(std::time::Duration::from_secs(10), run_connection(stream, state, ccfg)).await
+            })
+        }));
+        let end = match r {
+            Err(_) => End::Crash(crate::c15::last_panic()),
+            Ok(Err(_)) => End::Hang,
+            Ok(Ok(())) => End::Eof,
+        };
+        let w = written.lock().unwrap().clone();
+        ConnRun { written: w, end, reads: reads.load(SeqCst), marks: Vec::new() }
     }
 }
 
@@ -216,23 +331,41 @@ pub fn header_len() -> usize {
     std::env::var("VERIF_C04_HEADER_LEN").ok().and_then(|v| v.parse().ok()).unwrap_or(14)
 }
 
+/// `check_acl_permission` takes the base name of an unknown command with `parts[0]` (panics on a name
+/// without a non-white-space character) or with `parts.first()` (after the fix): read from the SOURCE
+/// by ./check (tools/props/C04.json source_constants) — the model has the flag `nameGuard`
+pub fn name_guarded() -> bool {
+    std::env::var("VERIF_C04_NAME_GUARD").map(|v| v.contains("first")).unwrap_or(false)
+}
+
+/// the `<headerLen>` token of the op lines: `14` or `14+g` (guarded)
+pub fn hl_token() -> String {
+    if name_guarded() { format!("{}+g", header_len()) } else { header_len().to_string() }
+}
+
+/// `str::split_whitespace` yields nothing for this command name (after from_utf8_lossy / to_uppercase)
+pub fn ws_only_name(name: &[u8]) -> bool {
+    String::from_utf8_lossy(name).to_uppercase().split_whitespace().next().is_none()
+}
+
 fn op_line(cfg: &Cfg, segs: &[Vec<u8>]) -> String {
     let s: Vec<String> = segs.iter().map(|s| hex(s)).collect();
-    format!("C {} {} {} {} {} {}", cfg.min_pipeline, cfg.batch_threshold, header_len(), cfg.read_size, cfg.max_buffer, s.join(","))
+    format!("C {} {} {} {} {} {}", cfg.min_pipeline, cfg.batch_threshold, hl_token(), cfg.read_size, cfg.max_buffer, s.join(","))
 }
 
 // ---------------------------------------------------------------- generators
 
-const KEYS: [&[u8]; 4] = [b"k", b"key:2", b"a-longer-key-name-0123456789", b"\r\n"];
+const KEYS: [&[u8]; 6] = [b"k", b"key:2", b"a-longer-key-name-0123456789", b"\r\n", b"", b"*3\r\n$3\r\nSET\r\n"];
 
 fn value(rng: &mut Rng) -> Vec<u8> {
-    match rng.below(7) {
+    match rng.below(8) {
         0 => vec![],
         1 => b"v".to_vec(),
         2 => b"with\r\ncrlf".to_vec(),
         3 => vec![0, 255, 36, 42],
         4 => vec![b'x'; rng.range(40, 90) as usize],
         5 => b"$3\r\nGET\r\n".to_vec(),
+        6 if rng.chance(1, 25) => vec![b'B'; *rng.pick(&[8191usize, 8192, 8193, 12_000])], // around / above read_buffer_size
         _ => (0..rng.range(1, 12)).map(|_| rng.below(256) as u8).collect(),
     }
 }
@@ -275,9 +408,11 @@ fn segmentation(rng: &mut Rng, stream: &[u8], boundaries: &[usize]) -> Vec<Vec<u
     if n < 2 {
         return vec![stream.to_vec()];
     }
-    match rng.below(8) {
+    // (long streams are not cut byte by byte: the op line and the model's run time grow out of proportion)
+    match if n > 1500 { 2 + rng.below(6) } else { rng.below(8) } {
         0 => vec![stream.to_vec()],
         1 => (0..n).map(|i| vec![stream[i]]).collect(),
+        2 if n > 1500 && rng.chance(1, 2) => vec![stream.to_vec()],
         2 => cut(stream, boundaries), // one command per segment
         3 => {
             // cuts just around frame boundaries / inside headers
@@ -306,20 +441,33 @@ fn segmentation(rng: &mut Rng, stream: &[u8], boundaries: &[usize]) -> Vec<Vec<u
 /// a legal configuration (PerformanceConfig::validate): read_size >= 1, max_size >= read_size —
 /// including max_size == read_size, read_size + 1 and small multiples of tiny reads
 fn config(rng: &mut Rng) -> Cfg {
-    let read_size = *rng.pick(&[8192usize, 8192, 8192, 64, 64, 16, 7]);
-    let max_buffer = match rng.below(8) {
+    let read_size = *rng.pick(&[8192usize, 8192, 8192, 64, 64, 16, 7, 1, 65536]);
+    let max_buffer = match rng.below(9) {
         0 => read_size,
         1 => read_size + 1,
         2 => 2 * read_size,
         3 => 3 * read_size + 5,
         4 if read_size < 8192 => 8192,
-        _ => 1_000_000,
+        5 => usize::MAX,
+        _ => 1_000_000.max(read_size),
     };
     Cfg {
-        min_pipeline: *rng.pick(&[0usize, 60, 60, 70, 1 << 40]),
-        batch_threshold: *rng.pick(&[1usize, 2, 2, 6]),
+        min_pipeline: *rng.pick(&[0usize, 1, 60, 60, 70, 1 << 40, usize::MAX]),
+        batch_threshold: *rng.pick(&[0usize, 1, 2, 2, 6, usize::MAX]),
         read_size,
         max_buffer,
+    }
+}
+
+/// a frame of many kilobytes read a few bytes at a time is re-parsed at every read (quadratic, in the
+/// real handler and in the model alike): such cases keep a read size of at least 64
+fn tame(cfg: &mut Cfg, cmds: &[Vec<Vec<u8>>]) {
+    let biggest = cmds.iter().flat_map(|c| c.iter().map(|a| a.len())).max().unwrap_or(0);
+    if biggest > 2000 && cfg.read_size < 64 {
+        cfg.read_size = 64;
+        if cfg.max_buffer < 1_000_000 {
+            cfg.max_buffer = 1_000_000;
+        }
     }
 }
 
@@ -604,6 +752,19 @@ fn check_wellformed(cx: &mut Cx, cfg: &Cfg, cmds: &[Vec<Vec<u8>>], segs: &[Vec<u
         cx.out.violation("C04:overflow:spurious", "the connection answered -ERR buffer overflow and closed although the unparsed bytes plus the bytes read never exceeded max_buffer_size", ov_replay("no overflow error: one reply per command"));
         return;
     }
+    // NOTHING IS WITHHELD WHILE THE CLIENT WAITS: whenever the handler asks for more input, every
+    // command that is complete in the bytes delivered so far has been answered on the wire (a
+    // client that sends a pipeline and waits for all replies before sending more must get them)
+    for (delivered, wlen) in &r.marks {
+        let complete = frame_ends.iter().filter(|e| **e <= *delivered).count();
+        let got = decode_replies(&r.written[..(*wlen).min(r.written.len())]).0.len();
+        if got < complete {
+            cx.out.violation("C04:reply-withheld:until-more-input", &format!("the handler asked for more input after {} bytes ({} complete commands) with only {} replies on the wire: the missing replies are stranded until new bytes arrive — a client that waits for them waits for ever", delivered, complete, got),
+                replay(&format!("{} replies written before the next read", complete), ""));
+            break;
+        }
+    }
+    cx.out.count(&format!("wf:depth={}", match cmds.len() { 0..=12 => "1-12", 13..=127 => "13-127", 128..=129 => "128-129", 130..=300 => "130-300", 301..=1024 => "301-1024", _ => "1025+" }));
     // twin: every command in its own segment, batching off
     let twin_segs: Vec<Vec<u8>> = cmds.iter().map(|c| frame(&c.iter().map(|a| &a[..]).collect::<Vec<_>>())).collect();
     let t = cx.runner.run(&twin_cfg, &twin_segs);
@@ -618,7 +779,11 @@ fn check_wellformed(cx: &mut Cx, cfg: &Cfg, cmds: &[Vec<Vec<u8>>], segs: &[Vec<u
 }
 
 fn gen_pipeline(rng: &mut Rng) -> (Vec<Vec<Vec<u8>>>, Vec<u8>, Vec<usize>) {
-    let depth = *rng.pick(&[1u64, 2, 2, 3, 5, 6, 7, 12]);
+    let mut depth = *rng.pick(&[1u64, 2, 2, 3, 5, 6, 7, 12]);
+    if rng.chance(1, 60) {
+        // very deep pipelines (internal batch / drain bounds, several reads of read_size)
+        depth = *rng.pick(&[64u64, 127, 128, 129, 130, 200, 255, 256, 257, 300, 513]);
+    }
     let mut in_tx = false;
     let mut cmds = Vec::new();
     // runs of GETs / SETs (what the collectors look for), mixed with other commands
@@ -765,6 +930,637 @@ fn check_malformed(cx: &mut Cx, cfg: &Cfg, cmds: &[Vec<Vec<u8>>], bad: &[u8], hi
     }
 }
 
+// ---------------------------------------------------------------- every arm of the handler (class 1)
+
+/// the source tree this binary was BUILT against (the `redis-sim` path dependency of harness/Cargo.toml)
+fn repo_dir() -> String {
+    const MANIFEST: &str = include_str!("../Cargo.toml");
+    for line in MANIFEST.lines() {
+        if line.trim_start().starts_with("redis-sim") {
+            if let Some(i) = line.find("path = \"") {
+                let rest = &line[i + 8..];
+                if let Some(j) = rest.find('"') {
+                    return rest[..j].to_string();
+                }
+            }
+        }
+    }
+    "/repo".to_string()
+}
+
+/// (frames sent outside MULTI, frames sent inside MULTI) that reach the arm of `try_execute_command`
+/// matching `Command::<variant>`; `None` = the harness does not know the variant
+fn arm_drivers(variant: &str) -> Option<Vec<Vec<&'static [u8]>>> {
+    Some(match variant {
+        "Multi" => vec![vec![b"MULTI"]],
+        "Exec" => vec![vec![b"EXEC"]],
+        "Discard" => vec![vec![b"DISCARD"]],
+        "Watch" => vec![vec![b"WATCH", b"k"], vec![b"WATCH", b"k", b"key:2"]],
+        "Unwatch" => vec![vec![b"UNWATCH"]],
+        "Auth" => vec![vec![b"AUTH", b"pw"], vec![b"AUTH", b"default", b"pw"]],
+        "AclWhoami" => vec![vec![b"ACL", b"WHOAMI"]],
+        "AclList" => vec![vec![b"ACL", b"LIST"]],
+        "AclUsers" => vec![vec![b"ACL", b"USERS"]],
+        "AclGetUser" => vec![vec![b"ACL", b"GETUSER", b"default"], vec![b"ACL", b"GETUSER", b"no-such-user"]],
+        "AclSetUser" => vec![vec![b"ACL", b"SETUSER", b"bob", b"on", b"nopass", b"~*", b"+@all"]],
+        "AclDelUser" => vec![vec![b"ACL", b"DELUSER", b"bob"]],
+        "AclCat" => vec![vec![b"ACL", b"CAT"], vec![b"ACL", b"CAT", b"string"]],
+        "AclGenPass" => vec![vec![b"ACL", b"GENPASS"], vec![b"ACL", b"GENPASS", b"32"]],
+        "AclDryrun" => vec![vec![b"ACL", b"DRYRUN", b"default", b"GET", b"k"]],
+        "AclLog" => vec![vec![b"ACL", b"LOG"], vec![b"ACL", b"LOG", b"2"]],
+        "AclLogReset" => vec![vec![b"ACL", b"LOG", b"RESET"]],
+        // stubs and genuinely unknown names: see STUBS / the unknown-name frames of `any_command`
+        "Unknown" => vec![vec![b"FOO", b"bar"], vec![b"HELLO"]],
+        // the `&Command::Get(key.clone())` of the WATCH snapshot / check is a constructor, not an arm
+        "Get" => vec![vec![b"GET", b"k"]],
+        _ => return None,
+    })
+}
+
+/// every name `is_stub_command` / `handle_stub_command` mention, with a frame that reaches it
+const STUBS: &[(&str, &[&[u8]])] = &[
+    ("PUBLISH", &[b"PUBLISH", b"ch", b"m"]), ("SPUBLISH", &[b"SPUBLISH", b"ch", b"m"]), ("SUBSCRIBE", &[b"SUBSCRIBE", b"ch"]), ("SSUBSCRIBE", &[b"SSUBSCRIBE", b"ch"]),
+    ("PSUBSCRIBE", &[b"PSUBSCRIBE", b"p*"]), ("UNSUBSCRIBE", &[b"UNSUBSCRIBE"]), ("SUNSUBSCRIBE", &[b"SUNSUBSCRIBE"]), ("PUNSUBSCRIBE", &[b"PUNSUBSCRIBE"]),
+    ("HELLO", &[b"HELLO", b"3"]), ("RESET", &[b"RESET"]),
+    ("CLIENT ", &[b"CLIENT", b"SETNAME", b"x"]), ("LIST", &[b"CLIENT", b"LIST"]), ("KILL", &[b"CLIENT", b"KILL", b"1.2.3.4:5"]), ("NO-EVICT", &[b"CLIENT", b"NO-EVICT", b"on"]),
+    ("CONFIG ", &[b"CONFIG", b"REWRITE"]), ("RESETSTAT", &[b"CONFIG", b"RESETSTAT"]), ("SET", &[b"CONFIG", b"SET", b"maxmemory", b"1"]), ("GET", &[b"CONFIG", b"GET", b"maxmemory"]),
+    ("ACL ", &[b"ACL", b"NOSUCHSUB"]), ("HELP", &[b"ACL", b"HELP"]), ("LOAD", &[b"ACL", b"LOAD"]), ("SAVE", &[b"ACL", b"SAVE"]),
+];
+
+/// how every function of connection_optimized.rs is accounted for
+fn fn_coverage(name: &str) -> Option<&'static str> {
+    Some(match name {
+        "parse_usize_fast" => "driven: the recognisers' length fields (look-alike generator: '+', leading zeros, 20 digits, empty, junk); feature opt-atoi-parse is off",
+        "default" | "from_perf_config" => "driven: every case builds its ConnectionConfig through PerformanceConfig::validate + from_perf_config; Default's values are the `default_like` configuration",
+        "new" => "driven: hook H1 / H1b constructs the handler for every case (buffers acquired from the shared pool; client_cert_cn = None: TLS is a feature that is off)",
+        "run" => "driven: every case; arms Ok(0) (EOF), Ok(n), Err (W ops: read error at a generated read), overflow guard, parse error, flush / write failure (W ops)",
+        "try_execute_command" => "driven: every arm by the K cases (enumerated from the source: arm_drivers)",
+        "execute_connection_level" => "driven: connection-level commands queued in MULTI and replayed by EXEC (K cases)",
+        "user_has_unrestricted_keys" | "check_acl_permission" => "driven with the default user only (feature acl off: AclManager is the permissive stub)",
+        "handle_auth" | "handle_acl_whoami" | "handle_acl_list" | "handle_acl_users" | "handle_acl_getuser" | "handle_acl_setuser" | "handle_acl_deluser" | "handle_acl_cat"
+        | "handle_acl_genpass" | "handle_acl_dryrun" | "handle_acl_log" | "handle_acl_log_reset" => "driven: K cases (one reply each, equal to the reply when sent alone; ACL GENPASS by kind only)",
+        "is_stub_command" | "handle_stub_command" => "driven: every literal of both functions by the K cases (STUBS, enumerated from the source)",
+        "collect_get_keys" | "collect_set_pairs" | "try_fast_path" | "try_fast_get" | "try_fast_set" => "driven: well-formed GET / SET runs around both thresholds (dead for them), the look-alike class and its near misses (alive), cut at every byte",
+        "encode_resp_into" | "encode_error_into" => "driven: every reply; byte-exact in the W ops; on arbitrary values through hook H1c (C15)",
+        "verif_encode_reply" | "verif_encode_error" => "hook H1c itself",
+        "resp_values_equal" => "WATCH comparison: C05's subject; reached by the K cases' WATCH … EXEC",
+        _ => return None,
+    })
+}
+
+fn scan_fail(cx: &mut Cx, what: &str) {
+    cx.out.violation("C04:coverage:source-scan-failed", &format!("the scan of src/production/connection_optimized.rs found no {}: the enumeration of what must be driven is empty", what), json!({"file": format!("{}/src/production/connection_optimized.rs", repo_dir())}));
+}
+
+/// ENUMERATE FROM THE SOURCE the binary was built against: arms of try_execute_command, stub names,
+/// functions, result enums, ConnectionConfig fields — everything must be known to the harness
+fn source_enumeration(cx: &mut Cx) -> Vec<String> {
+    let path = format!("{}/src/production/connection_optimized.rs", repo_dir());
+    let src = match std::fs::read_to_string(&path) {
+        Ok(s) => s,
+        Err(_) => {
+            scan_fail(cx, "file");
+            return vec![];
+        }
+    };
+    let mut table = serde_json::Map::new();
+    // 1. arms of try_execute_command
+    let body = src.split("async fn try_execute_command").nth(1).and_then(|r| r.split("fn execute_connection_level").next()).unwrap_or("");
+    let mut variants: Vec<String> = Vec::new();
+    for line in body.lines() {
+        let mut rest = line;
+        while let Some(i) = rest.find("Command::") {
+            let after = &rest[i + 9..];
+            let name: String = after.chars().take_while(|c| c.is_alphanumeric()).collect();
+            if name.chars().next().map(|c| c.is_uppercase()).unwrap_or(false) && !variants.contains(&name) {
+                variants.push(name);
+            }
+            rest = after;
+        }
+    }
+    if variants.len() < 10 {
+        scan_fail(cx, "arms of try_execute_command");
+    }
+    for v in &variants {
+        match arm_drivers(v) {
+            Some(fr) => {
+                table.insert(format!("arm Command::{}", v), json!(format!("driven by {} frame(s), outside and inside MULTI", fr.len())));
+            }
+            None => {
+                table.insert(format!("arm Command::{}", v), json!("UNACCOUNTED"));
+                cx.out.violation(&format!("C04:coverage:connection-arm-not-driven:{}", v), "try_execute_command matches on a Command variant for which the harness has no driving frame (harness/src/c04.rs arm_drivers)", json!({"variant": v}));
+            }
+        }
+    }
+    // 2. literals of is_stub_command / handle_stub_command
+    let stub_body = src.split("fn is_stub_command").nth(1).and_then(|r| r.split("fn collect_get_keys").next()).unwrap_or("");
+    let mut lits: Vec<String> = Vec::new();
+    for line in stub_body.lines() {
+        let t = line.trim_start();
+        if t.starts_with("//") || t.contains("RespValue::") || t.contains("format!(") {
+            continue;
+        }
+        let mut rest = t;
+        while let Some(i) = rest.find('"') {
+            let after = &rest[i + 1..];
+            if let Some(j) = after.find('"') {
+                let lit = &after[..j];
+                if !lit.is_empty() && lit.chars().all(|c| c.is_ascii_uppercase() || c == ' ' || c == '-') && !lits.contains(&lit.to_string()) {
+                    lits.push(lit.to_string());
+                }
+                rest = &after[j + 1..];
+            } else {
+                break;
+            }
+        }
+    }
+    if lits.len() < 10 {
+        scan_fail(cx, "stub command names");
+    }
+    for l in &lits {
+        if STUBS.iter().any(|(n, _)| n == l) {
+            table.insert(format!("stub {:?}", l), json!("driven (K cases)"));
+        } else {
+            table.insert(format!("stub {:?}", l), json!("UNACCOUNTED"));
+            cx.out.violation(&format!("C04:coverage:stub-not-driven:{}", l.trim()), "is_stub_command / handle_stub_command mention a name for which the harness has no frame (harness/src/c04.rs STUBS)", json!({"literal": l}));
+        }
+    }
+    // 3. functions
+    let mut fns: Vec<String> = Vec::new();
+    for line in src.lines() {
+        let t = line.trim_start();
+        for pre in ["pub async fn ", "async fn ", "pub fn ", "fn "] {
+            if let Some(r) = t.strip_prefix(pre) {
+                let name: String = r.chars().take_while(|c| c.is_alphanumeric() || *c == '_').collect();
+                if !name.is_empty() && !fns.contains(&name) {
+                    fns.push(name);
+                }
+                break;
+            }
+        }
+    }
+    if fns.len() < 20 {
+        scan_fail(cx, "functions");
+    }
+    for f in &fns {
+        match fn_coverage(f) {
+            Some(c) => {
+                table.insert(format!("fn {}", f), json!(c));
+            }
+            None => {
+                table.insert(format!("fn {}", f), json!("UNACCOUNTED"));
+                cx.out.violation(&format!("C04:coverage:fn-not-accounted:{}", f), "a function of connection_optimized.rs is neither driven nor listed with the reason why not (harness/src/c04.rs fn_coverage)", json!({"fn": f}));
+            }
+        }
+    }
+    // 4. result enums and the arms of the read
+    for (en, want) in [("enum CommandResult", &["Executed", "NeedMoreData", "ParseError"][..]), ("enum FastPathResult", &["Handled", "NeedMoreData", "NotFastPath"][..])] {
+        let b = src.split(en).nth(1).and_then(|r| r.split('}').next()).unwrap_or("");
+        let vs: Vec<String> = b.lines().map(|l| l.trim()).filter(|l| !l.starts_with("//") && !l.starts_with('{') && !l.is_empty()).map(|l| l.chars().take_while(|c| c.is_alphanumeric()).collect::<String>()).filter(|s| !s.is_empty()).collect();
+        if vs.is_empty() {
+            scan_fail(cx, en);
+        }
+        for v in vs {
+            if want.contains(&v.as_str()) {
+                table.insert(format!("{}::{}", en, v), json!("modelled (Recog / seqLoop outcomes) and driven"));
+            } else {
+                table.insert(format!("{}::{}", en, v), json!("UNACCOUNTED"));
+                cx.out.violation(&format!("C04:coverage:result-variant-not-modelled:{}", v), "a result variant of the handler's command step is not in the model (Model/Conn.lean Recog / seqLoop)", json!({"enum": en, "variant": v}));
+            }
+        }
+    }
+    // 5. ConnectionConfig fields are generated input
+    let cfgb = src.split("pub struct ConnectionConfig").nth(1).and_then(|r| r.split('}').next()).unwrap_or("");
+    let fields: Vec<String> = cfgb.lines().filter_map(|l| l.trim().strip_prefix("pub ")).map(|l| l.chars().take_while(|c| c.is_alphanumeric() || *c == '_').collect()).collect();
+    if fields.is_empty() {
+        scan_fail(cx, "ConnectionConfig fields");
+    }
+    for f in fields {
+        if ["max_buffer_size", "read_buffer_size", "min_pipeline_buffer", "batch_threshold"].contains(&f.as_str()) {
+            table.insert(format!("ConnectionConfig::{}", f), json!("generated input incl. legal extremes (config())"));
+        } else {
+            table.insert(format!("ConnectionConfig::{}", f), json!("UNACCOUNTED"));
+            cx.out.violation(&format!("C04:coverage:config-field-not-generated:{}", f), "ConnectionConfig has a field the harness does not generate and the model does not have", json!({"field": f}));
+        }
+    }
+    cx.out.extra.insert("source_coverage(derived from connection_optimized.rs at run time)".into(), serde_json::Value::Object(table));
+    variants
+}
+
+/// any well-formed command the server knows or does not know: the pool of the K cases
+fn any_command(rng: &mut Rng, in_tx: &mut bool, variants: &[String]) -> Vec<Vec<u8>> {
+    let own = |f: &[&[u8]]| f.iter().map(|a| a.to_vec()).collect::<Vec<Vec<u8>>>();
+    match rng.below(12) {
+        0..=2 if !variants.is_empty() => {
+            // an arm of try_execute_command
+            let v = rng.pick(variants).clone();
+            let fr = arm_drivers(&v).unwrap_or_else(|| vec![vec![b"PING"]]);
+            let f = own(&fr[rng.below(fr.len() as u64) as usize]);
+            let up = String::from_utf8_lossy(&f[0]).to_uppercase();
+            if up == "MULTI" {
+                if *in_tx {
+                    // nested MULTI: an error, the transaction goes on
+                }
+                *in_tx = true;
+            } else if up == "EXEC" || up == "DISCARD" {
+                *in_tx = false;
+            }
+            f
+        }
+        3..=4 => own(rng.pick(STUBS).1),
+        5 => own(*rng.pick(&[&[&b"GET"[..]][..], &[b"SET", b"k"], &[b"GET", b"a", b"b"], &[b"INCR"], &[b"EXPIRE", b"k", b"x"], &[b"SET", b"k", b"v", b"EX", b"0"]])),
+        6 => own(*rng.pick(&[&[&b"INCR"[..], b"n"][..], &[b"DEL", b"k", b"key:2"], &[b"RPUSH", b"l", b"a", b"b"], &[b"LRANGE", b"l", b"0", b"-1"], &[b"HSET", b"h", b"f", b"1"], &[b"HGETALL", b"h"],
+            &[b"EXISTS", b"k"], &[b"MGET", b"k", b"nokey"], &[b"TYPE", b"l"], &[b"APPEND", b"k", b"x"], &[b"STRLEN", b"k"], &[b"DBSIZE"], &[b"EVAL", b"return {1,{2,false},'x'}", b"0"]])),
+        7 if rng.chance(1, 2) => own(*rng.pick(&[&[&b"DEBUG"[..], b"OBJECT", b"k"][..], &[b"DEBUG", b"SLEEP", b"0"], &[b"DEBUG", b"SET-ACTIVE-EXPIRE", b"1"], &[b"CLIENT", b"GETNAME"], &[b"CLIENT", b"ID"],
+            &[b"CLIENT", b"INFO"], &[b"CLIENT", b"NOSUCHSUB"], &[b"CLIENT", b"KILL", b"x"], &[b"CONFIG", b"GET", b"maxmemory"], &[b"TIME"]])),
+        7 => own(*rng.pick(&[&[&b"QUIT"[..]][..], &[b"SELECT", b"0"], &[b"COMMAND"], &[b"INFO"], &[b"FOO\r\n+INJECTED"], &[b""], &[b" \t"], &[b"\xc2\xa0", b"x"], &[b"\xff\xfe", b"x"], &[b"get"]])),
+        _ => {
+            let mut t = *in_tx;
+            let c = command(rng, &mut t);
+            *in_tx = t;
+            c
+        }
+    }
+}
+
+/// replies that legitimately differ from run to run: compared by kind only
+fn nondeterministic(cmd: &[Vec<u8>]) -> bool {
+    let up: Vec<String> = cmd.iter().take(2).map(|a| String::from_utf8_lossy(a).to_uppercase()).collect();
+    (up.len() == 2 && up[0] == "ACL" && (up[1] == "GENPASS" || up[1] == "LOG")) || up[0] == "INFO" || up[0] == "TIME" || (up[0] == "DEBUG" && up.len() == 2 && up[1] == "OBJECT") || (up[0] == "CLIENT" && up.len() == 2 && (up[1] == "ID" || up[1] == "INFO"))
+}
+
+fn same_kind(a: &V, b: &V) -> bool {
+    std::mem::discriminant(a) == std::mem::discriminant(b)
+}
+
+/// EXEC arrays that contain the reply of a nondeterministic command: same length, same kinds
+fn same_shape(a: &V, b: &V) -> bool {
+    match (a, b) {
+        (V::A(x), V::A(y)) => x.len() == y.len() && x.iter().zip(y.iter()).all(|(p, q)| same_kind(p, q)),
+        _ => a == b,
+    }
+}
+
+/// K case: ANY well-formed commands (every arm of try_execute_command, every stub, arity errors,
+/// data commands of every reply kind).  Correspondence: the number of replies.  Oracle: one reply
+/// per command, each equal to the reply of the command when every command arrives alone.
+fn check_any(cx: &mut Cx, cfg: &Cfg, cmds: &[Vec<Vec<u8>>], segs: &[Vec<u8>], src: &str) {
+    let r = cx.runner.run(cfg, segs);
+    let (vals, rest) = decode_replies(&r.written);
+    let end = match &r.end { End::Eof => "eof", End::Crash(_) => "crash", End::Hang => "hang" };
+    let s: Vec<String> = segs.iter().map(|s| hex(s)).collect();
+    let op = format!("K {} {} {} {} {} {}", cfg.min_pipeline, cfg.batch_threshold, hl_token(), cfg.read_size, cfg.max_buffer, s.join(","));
+    cx.out.op(op.clone(), format!("n={} end={}{}", vals.len(), end, if rest > 0 { format!(" undecoded={}", rest) } else { String::new() }));
+    cx.out.case(&op, cmds.len() >= 2 && segs.len() >= 2);
+    for c in cmds {
+        let up = String::from_utf8_lossy(&c[0]).to_uppercase();
+        let key = if ["ACL", "CLIENT", "CONFIG"].contains(&up.as_str()) && c.len() > 1 { format!("{} {}", up, String::from_utf8_lossy(&c[1]).to_uppercase()) } else { up };
+        let key: String = key.chars().filter(|ch| ch.is_ascii_graphic() || *ch == ' ').take(24).collect();
+        cx.out.count(&format!("any:cmd:{}", key));
+    }
+    let shown: Vec<Vec<String>> = cmds.iter().map(|c| c.iter().map(|a| String::from_utf8_lossy(a).to_string()).collect()).collect();
+    let replay = |what: &str, twin: &str| json!({"op": op, "commands": shown, "observed": vals.iter().map(|v| v.show()).collect::<Vec<_>>(), "end": end, "expected": what, "alone": twin, "source": src});
+    if end != "eof" {
+        let m = if let End::Crash(m) = &r.end { m.clone() } else { "no progress for 10 s".to_string() };
+        // KNOWN CAUSE (C04:crash:whitespace-command-name): the first command OUTSIDE MULTI whose name has no
+        // non-white-space character panics check_acl_permission (`parts[0]` of an empty Vec).  Attributed only
+        // if such a command exists, the panic is an index panic, at most the commands before it were
+        // answered, and (./check, must_agree) the model of the current code predicts this very outcome.
+        let mut in_tx = false;
+        let mut culprit: Option<usize> = None;
+        for (i, c) in cmds.iter().enumerate() {
+            let up = String::from_utf8_lossy(&c[0]).to_uppercase();
+            if !in_tx && ws_only_name(&c[0]) {
+                culprit = Some(i);
+                break;
+            }
+            if up == "MULTI" && c.len() == 1 {
+                in_tx = true;
+            } else if (up == "EXEC" || up == "DISCARD") && c.len() == 1 {
+                in_tx = false;
+            }
+        }
+        match culprit {
+            Some(i) if end == "crash" && m.contains("index out of bounds") && vals.len() <= i && !name_guarded() => {
+                let sig = "C04:crash:whitespace-command-name";
+                let idx = cx.out.n_ops();
+                let e = cx.out.extra.entry("must_agree".to_string()).or_insert_with(|| json!([]));
+                e.as_array_mut().unwrap().push(json!([idx, sig]));
+                let mut rp = replay("an error reply (-ERR unknown command), then the replies to the following commands", "");
+                rp["culprit_command_index"] = json!(i);
+                rp["panic"] = json!(m);
+                rp["model_must_agree"] = json!(true);
+                cx.out.violation(sig, "a well-formed command whose name is empty or white space only, sent outside MULTI, panics the connection task in check_acl_permission (release profile: panic = abort, the server dies)", rp);
+            }
+            _ => cx.out.violation(&format!("C04:{}:well-formed-stream", end), &format!("the connection handler did not reach EOF on a well-formed pipeline: {}", m), replay("EOF", "")),
+        }
+        return;
+    }
+    let twin_cfg = Cfg { min_pipeline: 1 << 40, batch_threshold: 1 << 20, read_size: 8192, max_buffer: 1_000_000 };
+    let t = cx.runner.run(&twin_cfg, &cmd_frames(cmds));
+    let (tvals, _) = decode_replies(&t.written);
+    let tline = tvals.iter().map(|v| v.show()).collect::<Vec<_>>().join(" ; ");
+    if vals.len() != cmds.len() || rest != 0 {
+        let class = if vals.len() < cmds.len() { "missing-reply" } else { "extra-reply" };
+        cx.out.violation(&format!("C04:reply-count:{}", class), &format!("{} commands, {} replies ({} undecodable bytes)", cmds.len(), vals.len(), rest), replay("one reply per command", &tline));
+        return;
+    }
+    let nd_any = cmds.iter().any(|c| nondeterministic(c));
+    for i in 0..vals.len() {
+        let is_exec = cmds[i].len() == 1 && cmds[i][0].eq_ignore_ascii_case(b"EXEC");
+        let ok = if nondeterministic(&cmds[i]) {
+            tvals.get(i).map(|t| same_kind(t, &vals[i])).unwrap_or(false)
+        } else if nd_any && is_exec {
+            tvals.get(i).map(|t| same_shape(t, &vals[i])).unwrap_or(false)
+        } else {
+            tvals.get(i) == Some(&vals[i])
+        };
+        if !ok {
+            cx.out.violation("C04:reply-differs-from-alone", &format!("reply {} ({}) differs from the reply the command gets when every command is sent alone", i, shown[i].join(" ")), replay("replies equal to one-at-a-time replies", &tline));
+            return;
+        }
+    }
+}
+
+fn any_case(cx: &mut Cx, rng: &mut Rng, variants: &[String]) {
+    let mut cfg = config(rng);
+    cfg.max_buffer = 1_000_000;
+    let depth = *rng.pick(&[1u64, 2, 3, 5, 8, 13]);
+    let mut in_tx = false;
+    let mut cmds = Vec::new();
+    for _ in 0..depth {
+        cmds.push(any_command(rng, &mut in_tx, variants));
+    }
+    if in_tx {
+        cmds.push(vec![b"EXEC".to_vec()]);
+    }
+    tame(&mut cfg, &cmds);
+    let mut stream = Vec::new();
+    let mut bounds = Vec::new();
+    for f in cmd_frames(&cmds) {
+        stream.extend(f);
+        bounds.push(stream.len());
+    }
+    bounds.pop();
+    let segs = segmentation(rng, &stream, &bounds);
+    check_any(cx, &cfg, &cmds, &segs, "random");
+}
+
+/// every arm and every stub once outside MULTI, once queued inside MULTI … EXEC, in one segment and
+/// one command per segment
+fn any_corpus(cx: &mut Cx, variants: &[String]) {
+    let d = Cfg::default_like();
+    // command names without a non-white-space character (must_reproduce witness of
+    // C04:crash:whitespace-command-name runs first), their near misses, outside and inside MULTI
+    for name in [&b""[..], b" ", b"\t", b"\r\n", b"  \x0b\x0c", b"\xc2\xa0", b"\xc2\x85", b"\xe3\x80\x80", b"\xe2\x80\x8a", b"\xe2\x80\x8b", b"\xe1\x9a\x80", b" a", b"\xff", b"\xe2\x80\xa8", b"\xe2\x81\x9f", b"\xe2\x80", b" \xc2"] {
+        let cmds = vec![vec![b"PING".to_vec()], vec![name.to_vec()], vec![b"PING".to_vec()]];
+        check_any(cx, &d, &cmds, &cmd_frames(&cmds), "corpus:ws-name");
+        check_any(cx, &d, &cmds, &[cmd_frames(&cmds).concat()], "corpus:ws-name");
+        let cmds = vec![vec![b"PING".to_vec()], vec![name.to_vec(), b"arg".to_vec()], vec![b"PING".to_vec()]];
+        check_any(cx, &d, &cmds, &cmd_frames(&cmds), "corpus:ws-name-arg");
+        let cmds = vec![vec![b"MULTI".to_vec()], vec![name.to_vec()], vec![b"EXEC".to_vec()], vec![b"PING".to_vec()]];
+        check_any(cx, &d, &cmds, &cmd_frames(&cmds), "corpus:ws-name-in-multi");
+    }
+    let own = |f: &[&[u8]]| f.iter().map(|a| a.to_vec()).collect::<Vec<Vec<u8>>>();
+    let mut singles: Vec<Vec<Vec<u8>>> = Vec::new();
+    for v in variants {
+        for f in arm_drivers(v).unwrap_or_default() {
+            let up = String::from_utf8_lossy(f[0]).to_uppercase();
+            if up != "MULTI" && up != "EXEC" && up != "DISCARD" {
+                singles.push(own(&f));
+            }
+        }
+    }
+    for (_, f) in STUBS {
+        singles.push(own(f));
+    }
+    // known commands with a sub-command form in check_acl_permission, unknown sub-commands of the stubs
+    for f in [&[&b"DEBUG"[..], b"OBJECT", b"k"][..], &[b"DEBUG", b"SLEEP", b"0"], &[b"DEBUG", b"SET-ACTIVE-EXPIRE", b"1"], &[b"CLIENT", b"GETNAME"], &[b"CLIENT", b"ID"], &[b"CLIENT", b"INFO"],
+        &[b"CLIENT", b"NOSUCHSUB"], &[b"CONFIG", b"GET", b"maxmemory"], &[b"CONFIG", b"SET", b"a", b"b"], &[b"CONFIG", b"RESETSTAT"]] {
+        singles.push(own(f));
+    }
+    for chunk in singles.chunks(6) {
+        let outside: Vec<Vec<Vec<u8>>> = chunk.to_vec();
+        let mut inside: Vec<Vec<Vec<u8>>> = vec![vec![b"MULTI".to_vec()]];
+        inside.extend(chunk.iter().cloned());
+        inside.push(vec![b"MULTI".to_vec()]);
+        inside.push(vec![b"EXEC".to_vec()]);
+        inside.push(vec![b"EXEC".to_vec()]);
+        inside.push(vec![b"DISCARD".to_vec()]);
+        inside.push(vec![b"MULTI".to_vec()]);
+        inside.push(vec![b"PING".to_vec()]);
+        inside.push(vec![b"DISCARD".to_vec()]);
+        for cmds in [outside, inside] {
+            let frames = cmd_frames(&cmds);
+            check_any(cx, &d, &cmds, &[frames.concat()], "corpus:arms");
+            check_any(cx, &d, &cmds, &frames, "corpus:arms");
+        }
+    }
+}
+
+// ---------------------------------------------------------------- the write side (Model/ConnWrite.lean)
+
+fn script_text(script: &[WEv]) -> String {
+    if script.is_empty() {
+        return "-".into();
+    }
+    script.iter().map(|e| match e { WEv::Accept(k) => format!("a{}", k), WEv::Fail => "f".into() }).collect::<Vec<_>>().join(",")
+}
+
+fn wop_line(cfg: &Cfg, segs: &[Vec<u8>], script: &[WEv], stop: Option<usize>) -> String {
+    let s: Vec<String> = segs.iter().filter(|s| !s.is_empty()).map(|s| hex(s)).collect();
+    format!("W {} {} {} {} {} {} {} {}", cfg.min_pipeline, cfg.batch_threshold, hl_token(), cfg.read_size, cfg.max_buffer, s.join(","), script_text(script),
+        stop.map(|n| n.to_string()).unwrap_or("-".into()))
+}
+
+/// commands whose replies the byte-level reference executor (`ConnW.refExec`) predicts exactly:
+/// GET / SET / PING / ECHO with the right arity, MULTI … EXEC / DISCARD properly nested
+fn plain_command(rng: &mut Rng, in_tx: &mut bool) -> Vec<Vec<u8>> {
+    let lower = rng.chance(1, 5);
+    let nm = |s: &str| if lower { s.to_lowercase().into_bytes() } else { s.as_bytes().to_vec() };
+    match rng.below(18) {
+        0..=5 => vec![nm("GET"), rng.pick(&KEYS).to_vec()],
+        6..=11 => vec![nm("SET"), rng.pick(&KEYS).to_vec(), value(rng)],
+        12..=13 => vec![nm("PING")],
+        14..=15 => vec![nm("ECHO"), value(rng)],
+        16 if !*in_tx => {
+            *in_tx = true;
+            vec![nm("MULTI")]
+        }
+        17 if *in_tx => {
+            *in_tx = false;
+            vec![if rng.chance(1, 4) { nm("DISCARD") } else { nm("EXEC") }]
+        }
+        _ => vec![nm("GET"), rng.pick(&KEYS).to_vec()],
+    }
+}
+
+fn no_fail(script: &[WEv]) -> bool {
+    script.iter().all(|e| matches!(e, WEv::Accept(k) if *k > 0))
+}
+
+/// a peer: (script, class)
+fn gen_script(rng: &mut Rng) -> (Vec<WEv>, &'static str) {
+    match rng.below(10) {
+        0 => (vec![], "accepts-everything"),
+        1 => ((0..400).map(|_| WEv::Accept(1)).collect(), "one-byte-writes"),
+        2 | 3 => ((0..rng.range(1, 120)).map(|_| WEv::Accept(*rng.pick(&[1usize, 1, 2, 3, 4, 5, 7, 13, 40, 1 << 20]))).collect(), "partial-writes"),
+        4 => {
+            let mut v: Vec<WEv> = (0..rng.below(12)).map(|_| WEv::Accept(*rng.pick(&[1usize, 2, 5, 9, 1 << 20]))).collect();
+            v.push(WEv::Fail);
+            (v, "fails-after-partial-writes")
+        }
+        5 => {
+            let mut v: Vec<WEv> = (0..rng.below(8)).map(|_| WEv::Accept(*rng.pick(&[1usize, 3, 6, 1 << 20]))).collect();
+            v.push(WEv::Accept(0));
+            (v, "write-zero")
+        }
+        6 => (vec![WEv::Accept(1 << 20), WEv::Fail], "first-flush-fails"),
+        7 => (vec![WEv::Accept(1 << 20), WEv::Accept(1), WEv::Accept(1 << 20), WEv::Fail], "second-flush-fails"),
+        8 => (vec![WEv::Fail], "first-write-fails"),
+        _ => {
+            // whole writes for a while, then the peer goes away
+            let mut v: Vec<WEv> = (0..2 * rng.below(4)).map(|_| WEv::Accept(1 << 20)).collect();
+            v.push(WEv::Accept(*rng.pick(&[1usize, 2, 4])));
+            v.push(WEv::Fail);
+            (v, "fails-mid-pipeline")
+        }
+    }
+}
+
+/// THE WRITE SIDE.  Correspondence: the bytes the scripted peer received and the number of reads the
+/// handler made, vs `ConnW.runW` with the byte-level reference executor.  Oracle (independent of the
+/// model): what the peer received is a PREFIX of what a peer receives that sends every command
+/// alone and accepts every write whole; ALL of it when the peer never refuses and no read fails.
+fn check_write(cx: &mut Cx, cfg: &Cfg, cmds: &[Vec<Vec<u8>>], junk: Option<&[u8]>, segs: &[Vec<u8>], script: &[WEv], sclass: &str, stop: Option<usize>, pend: usize, src: &str) {
+    let r = cx.runner.run_scripted(cfg, segs, script, stop, pend);
+    let op = wop_line(cfg, segs, script, stop);
+    let line = format!("w={} reads={}", hex(&r.written), r.reads);
+    cx.out.op(op.clone(), line.clone());
+    cx.out.count(&format!("write:{}:peer={}", src, sclass));
+    cx.out.count(&format!("write:read-error={}", if stop.is_some() { "yes" } else { "no" }));
+    cx.out.count(&format!("write:pending-polls={}", if pend > 0 { "yes" } else { "no" }));
+    if junk.is_some() {
+        cx.out.count("write:malformed-tail");
+    }
+    cx.out.case(&op, cmds.len() >= 2);
+    let replay = |what: &str, twin: &str| json!({"op": op, "commands": cmds.iter().map(|c| c.iter().map(|a| String::from_utf8_lossy(a).to_string()).collect::<Vec<_>>()).collect::<Vec<_>>(),
+        "segments": segs.iter().map(|s| hex(s)).collect::<Vec<_>>(), "peer_script": script_text(script), "peer_class": sclass, "read_fails_after": stop, "pending_every": pend,
+        "received": hex(&r.written), "reads": r.reads, "expected": what, "alone_accepting_everything": twin, "source": src});
+    match &r.end {
+        End::Crash(m) => {
+            cx.out.violation("C04:write:crash", &format!("the connection handler panicked with a peer that {}: {}", sclass, m), replay("no panic", ""));
+            return;
+        }
+        End::Hang => {
+            cx.out.violation("C04:write:hang", "the connection handler did not finish within 10 s", replay("the loop is left", ""));
+            return;
+        }
+        End::Eof => {}
+    }
+    if junk.is_some() {
+        return;
+    }
+    let mut frame_ends = Vec::new();
+    let mut acc = 0usize;
+    for c in cmds {
+        acc += frame(&c.iter().map(|a| &a[..]).collect::<Vec<_>>()).len();
+        frame_ends.push(acc);
+    }
+    if expected_overflow(&frame_ends, &reads_of(segs, cfg.read_size), cfg.max_buffer).is_some() {
+        cx.out.count("write:overflow-on-the-way");
+        return;
+    }
+    let twin_cfg = Cfg { min_pipeline: 1 << 40, batch_threshold: 1 << 20, read_size: 8192, max_buffer: 1_000_000 };
+    let t = cx.runner.run(&twin_cfg, &cmd_frames(cmds));
+    if !t.written.starts_with(&r.written) {
+        cx.out.violation("C04:write:not-a-prefix-of-the-reply-stream", "the bytes the peer received are not a prefix of the replies the commands get when sent alone: a reply is missing in the middle, duplicated, reordered or damaged",
+            replay("a prefix of the reply stream", &hex(&t.written)));
+    } else if no_fail(script) && stop.is_none() && r.written != t.written {
+        cx.out.violation("C04:write:reply-bytes-missing", "the peer accepted every byte offered (in partial writes) and no read failed, yet it did not receive the whole reply stream",
+            replay("the whole reply stream", &hex(&t.written)));
+    }
+}
+
+fn write_case(cx: &mut Cx, rng: &mut Rng) {
+    let mut cfg = config(rng);
+    if rng.chance(2, 3) {
+        cfg.max_buffer = 1_000_000.max(cfg.read_size);
+    }
+    let depth = *rng.pick(&[1u64, 2, 3, 5, 8, 12]);
+    let mut in_tx = false;
+    let mut cmds = Vec::new();
+    for _ in 0..depth {
+        cmds.push(plain_command(rng, &mut in_tx));
+    }
+    if in_tx {
+        cmds.push(vec![b"EXEC".to_vec()]);
+    }
+    tame(&mut cfg, &cmds);
+    let mut stream = Vec::new();
+    let mut bounds = Vec::new();
+    for f in cmd_frames(&cmds) {
+        stream.extend(f);
+        bounds.push(stream.len());
+    }
+    bounds.pop();
+    // sometimes a frame the RESP grammar rejects at the very end, in its own segment: `-ERR protocol error`
+    let junk: Option<Vec<u8>> = if rng.chance(1, 8) { Some(rng.pick(&[&b"?what\r\n"[..], b"*x\r\n", b"$-2\r\n", b"*1\r\n:x\r\n"]).to_vec()) } else { None };
+    let mut segs = segmentation(rng, &stream, &bounds);
+    if let Some(j) = &junk {
+        segs.push(j.clone());
+    }
+    let (script, sclass) = gen_script(rng);
+    let nreads = reads_of(&segs, cfg.read_size).len();
+    let stop = if rng.chance(1, 5) { Some(rng.below(nreads as u64 + 1) as usize) } else { None };
+    let pend = if rng.chance(1, 4) { *rng.pick(&[1usize, 2, 3, 7]) } else { 0 };
+    check_write(cx, &cfg, &cmds, junk.as_deref(), &segs, &script, sclass, stop, pend, "random");
+}
+
+/// fixed cases of the write side: every kind of peer on one pipeline, a read error at every read,
+/// a failing peer at every byte position of the reply stream
+fn write_corpus(cx: &mut Cx) {
+    let d = Cfg::default_like();
+    let cmds: Vec<Vec<Vec<u8>>> = vec![
+        vec![b"SET".to_vec(), b"k".to_vec(), b"v".to_vec()], vec![b"GET".to_vec(), b"k".to_vec()], vec![b"PING".to_vec()],
+        vec![b"MULTI".to_vec()], vec![b"ECHO".to_vec(), b"a\r\nb".to_vec()], vec![b"EXEC".to_vec()], vec![b"GET".to_vec(), b"missing".to_vec()],
+    ];
+    let frames = cmd_frames(&cmds);
+    let stream: Vec<u8> = frames.concat();
+    // the reply stream is 52 bytes: the peer takes k bytes and goes away, for every k
+    for k in 0..=56usize {
+        let script = if k == 0 { vec![WEv::Fail] } else { vec![WEv::Accept(k), WEv::Fail] };
+        check_write(cx, &d, &cmds, None, &[stream.clone()], &script, "fails-at-every-byte", None, 0, "corpus");
+    }
+    for k in [1usize, 2, 3, 5, 11] {
+        let script: Vec<WEv> = (0..80).map(|_| WEv::Accept(k)).collect();
+        check_write(cx, &d, &cmds, None, &frames, &script, "partial-writes", None, 0, "corpus");
+        check_write(cx, &d, &cmds, None, &[stream.clone()], &script, "partial-writes", None, k, "corpus");
+    }
+    for n in 0..=frames.len() {
+        check_write(cx, &d, &cmds, None, &frames, &[], "accepts-everything", Some(n), 0, "corpus");
+        check_write(cx, &d, &cmds, None, &frames, &[WEv::Accept(3), WEv::Accept(1 << 20), WEv::Accept(1)], "partial-writes", Some(n), 1, "corpus");
+    }
+    // flush failures at the first, second, third flush; Ok(0) in the middle of a reply
+    for i in 0..3usize {
+        let mut script: Vec<WEv> = (0..2 * i).map(|_| WEv::Accept(1 << 20)).collect();
+        script.push(WEv::Accept(1 << 20));
+        script.push(WEv::Fail);
+        check_write(cx, &d, &cmds, None, &frames, &script, "flush-fails", None, 0, "corpus");
+        let mut script: Vec<WEv> = (0..2 * i).map(|_| WEv::Accept(1 << 20)).collect();
+        script.push(WEv::Accept(2));
+        script.push(WEv::Accept(0));
+        check_write(cx, &d, &cmds, None, &frames, &script, "write-zero", None, 0, "corpus");
+    }
+    // the overflow guard's `let _ = write_all(..)`: error reply written in pieces / not at all
+    let small = Cfg { min_pipeline: 60, batch_threshold: 2, read_size: 16, max_buffer: 48 };
+    let big: Vec<Vec<Vec<u8>>> = vec![vec![b"PING".to_vec()], vec![b"SET".to_vec(), b"k".to_vec(), vec![b'x'; 200]], vec![b"PING".to_vec()]];
+    let bs: Vec<u8> = cmd_frames(&big).concat();
+    for script in [vec![], vec![WEv::Accept(1 << 20), WEv::Accept(1), WEv::Accept(4), WEv::Accept(5)], vec![WEv::Accept(1 << 20), WEv::Accept(1), WEv::Fail], vec![WEv::Accept(1 << 20), WEv::Accept(1), WEv::Accept(3), WEv::Accept(0)]] {
+        check_write(cx, &small, &big, None, &[bs.clone()], &script, "overflow-reply", None, 0, "corpus");
+    }
+}
+
 /// one client connection of a pooled case: segments, failing write call
 #[derive(Clone)]
 struct Conn {
@@ -780,7 +1576,7 @@ fn pooled_op(cfg: &Cfg, pool_size: usize, conns: &[Conn]) -> String {
             format!("{}/{}", if segs.is_empty() { "-".to_string() } else { segs.join(",") }, c.fail.map(|f| f.to_string()).unwrap_or("-".into()))
         })
         .collect();
-    format!("P {} {} {} {} {} {} {}", cfg.min_pipeline, cfg.batch_threshold, header_len(), cfg.read_size, cfg.max_buffer, pool_size, cs.join(";"))
+    format!("P {} {} {} {} {} {} {}", cfg.min_pipeline, cfg.batch_threshold, hl_token(), cfg.read_size, cfg.max_buffer, pool_size, cs.join(";"))
 }
 
 /// a sequence of connections served one after the other by ONE server-wide buffer pool (each on a
@@ -817,7 +1613,37 @@ fn pipeline_conn(cmds: &[Vec<&[u8]>], one_segment: bool) -> Conn {
     Conn { segs, fail: None }
 }
 
+/// the OTHER buffer pool of the tree (`redis::BufferPool`, resp_optimized.rs: the synchronous twin of
+/// BufferPoolAsync, public API, not wired into the server): a released buffer comes back empty
+fn sync_pool_probe(cx: &mut Cx) {
+    use bytes::BufMut;
+    for size in [1usize, 2, 3] {
+        let pool = redis_sim::redis::BufferPool::new(size, 64);
+        let mut held = Vec::new();
+        for i in 0..size + 1 {
+            let mut b = pool.acquire();
+            if !b.is_empty() {
+                cx.out.violation("C04:cross-connection:stale-buffer:sync-pool", "redis::BufferPool::acquire handed out a buffer that is not empty", json!({"pool_size": size, "acquire": i, "len": b.len()}));
+            }
+            b.put_slice(b"*2\r\n$3\r\nGET\r\n$5\r\nab");
+            held.push(b);
+        }
+        for b in held {
+            pool.release(b);
+        }
+        for i in 0..size + 2 {
+            let b = pool.acquire();
+            if !b.is_empty() {
+                cx.out.violation("C04:cross-connection:stale-buffer:sync-pool", "redis::BufferPool hands out a released buffer with the previous owner's bytes still in it", json!({"pool_size": size, "acquire_after_release": i, "len": b.len()}));
+            }
+        }
+        cx.out.count("pooled:sync-pool-probe");
+    }
+    let _ = redis_sim::redis::BufferPool::default().acquire();
+}
+
 fn pooled_corpus(cx: &mut Cx) {
+    sync_pool_probe(cx);
     let d = Cfg::default_like();
     let victim = pipeline_conn(&[vec![b"SET", b"k", b"v"], vec![b"GET", b"k"], vec![b"PING"]], true);
     // an earlier client disconnects in the middle of a frame, at every cut position
@@ -855,7 +1681,8 @@ fn pooled_random(cx: &mut Cx, rng: &mut Rng) {
     let n = rng.range(2, 5) as usize;
     let mut conns = Vec::new();
     for _ in 0..n {
-        let (_, stream, bounds) = gen_pipeline(rng);
+        let (pcmds, stream, bounds) = gen_pipeline(rng);
+        tame(&mut cfg, &pcmds);
         let mut segs = segmentation(rng, &stream, &bounds);
         let mut fail = None;
         match rng.below(5) {
@@ -910,6 +1737,402 @@ fn overflow_corpus(cx: &mut Cx) {
     }
 }
 
+/// VERY DEEP pipelines delivered in ONE read (read_size above the stream length), in reads of 8192,
+/// and one command per segment: every internal bound on commands per read / per flush is crossed
+fn deep_corpus(cx: &mut Cx) {
+    for depth in [64usize, 127, 128, 129, 130, 200, 256, 257, 300, 512, 1000, 1025, 2049] {
+        for mode in 0..3 {
+            let cmds: Vec<Vec<Vec<u8>>> = (0..depth).map(|i| match mode {
+                0 => vec![b"PING".to_vec()],
+                1 => if i % 2 == 0 { vec![b"SET".to_vec(), KEYS[i % 3].to_vec(), format!("v{}", i).into_bytes()] } else { vec![b"GET".to_vec(), KEYS[(i / 2) % 3].to_vec()] },
+                _ => vec![b"GET".to_vec(), KEYS[i % 3].to_vec()],
+            }).collect();
+            if mode > 0 && depth > 300 {
+                continue;
+            }
+            let frames = cmd_frames(&cmds);
+            let stream: Vec<u8> = frames.concat();
+            let one_read = Cfg { min_pipeline: 60, batch_threshold: 2, read_size: 1 << 20, max_buffer: 1 << 24 };
+            check_wellformed(cx, &one_read, &cmds, &[stream.clone()], "corpus:deep:one-read");
+            if depth <= 300 || (mode == 0 && depth <= 1025) {
+                check_wellformed(cx, &Cfg::default_like(), &cmds, &[stream.clone()], "corpus:deep:reads-of-8192");
+            }
+            if depth <= 257 && mode < 2 {
+                let no_batch = Cfg { min_pipeline: 1 << 40, batch_threshold: 6, read_size: 1 << 20, max_buffer: 1 << 24 };
+                check_wellformed(cx, &no_batch, &cmds, &[stream.clone()], "corpus:deep:gate-closed");
+            }
+        }
+    }
+}
+
+// ---------------------------------------------------------------- the mirror (simulator/connection.rs)
+
+/// `SimulatedConnection` — the hand-written mirror of the read loop that the repository's own
+/// connection tests run.  Only valid commands can be fed to it (its input is `Command`s, which it
+/// encodes itself).  Correspondence: its responses vs `ConnSim.simRun` + the reference executor.
+/// Oracle: the same commands through the PRODUCTION handler (hook H1) get the same replies.
+fn mirror_case(cx: &mut Cx, cmds: &[Vec<Vec<u8>>], seed: u64, partial: f64, per_read: usize, src: &str) {
+    use redis_sim::redis::{Command, SDS};
+    use redis_sim::simulator::connection::SimulatedConnection;
+    let to_cmd = |c: &Vec<Vec<u8>>| -> Command {
+        let s = |b: &Vec<u8>| String::from_utf8_lossy(b).to_string();
+        match (String::from_utf8_lossy(&c[0]).to_uppercase().as_str(), c.len()) {
+            ("GET", 2) => Command::Get(s(&c[1])),
+            ("SET", 3) => Command::set(s(&c[1]), SDS::new(c[2].clone())),
+            _ => Command::Ping(None),
+        }
+    };
+    let mut sim = SimulatedConnection::new(seed);
+    if partial > 0.0 {
+        sim = sim.with_partial_reads(partial);
+    }
+    sim.send_pipeline(cmds.iter().map(to_cmd).collect());
+    let res = catch_unwind(AssertUnwindSafe(move || {
+        let r = if per_read > 0 { sim.process_with_partial_arrivals(per_read) } else { sim.process() };
+        (r, sim.commands_executed(), sim.flush_count())
+    }));
+    let stream: Vec<u8> = cmd_frames(cmds).concat();
+    let op = format!("S {}", hex(&stream));
+    let (line, vals, executed) = match &res {
+        Ok((rs, n, _)) => {
+            let vals: Vec<V> = rs.iter().map(V::from_rv).collect();
+            let texts: Vec<String> = vals.iter().map(reply_text).collect();
+            (format!("n={} [{}] end=eof", vals.len(), texts.join(" ; ")), vals, *n)
+        }
+        Err(_) => ("n=0 [] end=crash".to_string(), vec![], 0),
+    };
+    cx.out.op(op.clone(), line.clone());
+    cx.out.case(&format!("{}|{}|{}|{}", op, seed, partial, per_read), cmds.len() >= 2);
+    cx.out.count(&format!("mirror:{}:partial={}:per-read={}", src, partial, per_read.min(3)));
+    let shown: Vec<Vec<String>> = cmds.iter().map(|c| c.iter().map(|a| String::from_utf8_lossy(a).to_string()).collect()).collect();
+    let twin_cfg = Cfg { min_pipeline: 1 << 40, batch_threshold: 1 << 20, read_size: 8192, max_buffer: 1_000_000 };
+    let t = cx.runner.run(&twin_cfg, &cmd_frames(cmds));
+    let (tvals, _) = decode_replies(&t.written);
+    if res.is_err() || vals.len() != cmds.len() || executed != cmds.len() || vals != tvals {
+        cx.out.violation("C04:mirror:differs-from-production", "SimulatedConnection (the mirror the repository's connection tests run) answers a well-formed pipeline of GET / SET / PING differently from the production handler, or not once per command",
+            json!({"commands": shown, "mirror": line, "commands_executed": executed, "production": tvals.iter().map(|v| v.show()).collect::<Vec<_>>(), "seed": seed, "partial_read_probability": partial, "commands_per_arrival": per_read, "source": src}));
+    }
+}
+
+fn mirror_cases(cx: &mut Cx, rng: &mut Rng, n: usize) {
+    let keys: [&[u8]; 3] = [b"k", b"key:2", b"a-longer-key-name-0123456789"];
+    for i in 0..n {
+        let depth = *rng.pick(&[1u64, 2, 3, 5, 8, 16, 64]);
+        let cmds: Vec<Vec<Vec<u8>>> = (0..depth).map(|_| match rng.below(5) {
+            0 | 1 => vec![b"GET".to_vec(), rng.pick(&keys).to_vec()],
+            2 | 3 => vec![b"SET".to_vec(), rng.pick(&keys).to_vec(), value(rng).into_iter().take(64).collect()],
+            _ => vec![b"PING".to_vec()],
+        }).collect();
+        let partial = *rng.pick(&[0.0f64, 0.3, 0.9, 1.0]);
+        let per_read = *rng.pick(&[0usize, 0, 1, 2, 3]);
+        mirror_case(cx, &cmds, i as u64 + 1, partial, per_read, "random");
+    }
+}
+
+// ---------------------------------------------------------------- the real server over loopback TCP
+
+struct TcpCfg {
+    toml: String,
+    /// None = PerformanceConfig::validate must reject it (the server must refuse to start)
+    expect: Option<Cfg>,
+    label: &'static str,
+}
+
+fn toml_of(shards: usize, cap: usize, prewarm: usize, read: usize, max: usize, minp: usize, thr: usize, conns: usize, pool: usize) -> String {
+    format!("num_shards = {}\n[response_pool]\ncapacity = {}\nprewarm = {}\n[buffers]\nread_size = {}\nmax_size = {}\n[batching]\nmin_pipeline_buffer = {}\nbatch_threshold = {}\n[connection_pool]\nmax_connections = {}\nbuffer_pool_size = {}\n",
+        shards, cap, prewarm, read, max, minp, thr, conns, pool)
+}
+
+/// `OptimizedRedisServer::new(addr).run()` — the accept loop, the configuration path
+/// (PERF_CONFIG_PATH → from_env → from_file → validate → ConnectionConfig::from_perf_config, the
+/// server-wide ConnectionPool, ShardedActorState::with_perf_config) — over loopback TCP.  The kernel
+/// decides how the bytes are cut into reads; for well-formed pipelines that cannot matter
+/// (`segmentation_independent`), so the oracle needs no knowledge of it: every connection must be
+/// answered as by the in-process handler on a roomy configuration, also a client that sends a deep
+/// pipeline in one write and WAITS for all replies without closing.
+fn tcp_end_to_end(cx: &mut Cx) {
+    use tokio::io::{AsyncReadExt, AsyncWriteExt};
+    // the two sources of defaults agree: ConnectionConfig::default() and the PerformanceConfig defaults
+    {
+        let a = ConnectionConfig::default();
+        let pc = redis_sim::production::PerformanceConfig::default();
+        let b = ConnectionConfig::from_perf_config(&pc.buffers, &pc.batching);
+        let fa = (a.max_buffer_size, a.read_buffer_size, a.min_pipeline_buffer, a.batch_threshold);
+        let fb = (b.max_buffer_size, b.read_buffer_size, b.min_pipeline_buffer, b.batch_threshold);
+        cx.out.count("config:defaults-compared");
+        if fa != fb || pc.validate().is_err() {
+            cx.out.violation("C04:config:defaults-differ", "ConnectionConfig::default() and the connection configuration derived from PerformanceConfig::default() differ (or the default PerformanceConfig does not validate)", json!({"ConnectionConfig::default (max, read, min_pipeline, threshold)": format!("{:?}", fa), "from PerformanceConfig::default": format!("{:?}", fb)}));
+        }
+    }
+    let dir = cx.out.dir.clone();
+    let cases = vec![
+        TcpCfg { toml: toml_of(2, 4, 1, 16, 64, 0, 1, 2, 1), expect: Some(Cfg { min_pipeline: 0, batch_threshold: 1, read_size: 16, max_buffer: 64 }), label: "small-buffers" },
+        TcpCfg { toml: toml_of(1, 1, 0, 8192, 8192, 60, 2, 1, 1), expect: Some(Cfg { min_pipeline: 60, batch_threshold: 2, read_size: 8192, max_buffer: 8192 }), label: "max-equals-read" },
+        TcpCfg { toml: "this is = not [ toml".into(), expect: Some(Cfg { min_pipeline: 60, batch_threshold: 2, read_size: 8192, max_buffer: 512 * 1024 * 1024 }), label: "unparsable-file-means-defaults" },
+        TcpCfg { toml: "".into(), expect: Some(Cfg { min_pipeline: 60, batch_threshold: 2, read_size: 8192, max_buffer: 512 * 1024 * 1024 }), label: "empty-file-means-defaults" },
+        TcpCfg { toml: "<no file>".into(), expect: Some(Cfg { min_pipeline: 60, batch_threshold: 2, read_size: 8192, max_buffer: 512 * 1024 * 1024 }), label: "missing-file-means-defaults" },
+        TcpCfg { toml: "<directory>".into(), expect: Some(Cfg { min_pipeline: 60, batch_threshold: 2, read_size: 8192, max_buffer: 512 * 1024 * 1024 }), label: "unreadable-path-means-defaults" },
+        TcpCfg { toml: toml_of(3, 4, 1, 16, 64, 0, 1, 2, 1), expect: None, label: "invalid:shards-not-power-of-two" },
+        TcpCfg { toml: toml_of(0, 4, 1, 16, 64, 0, 1, 2, 1), expect: None, label: "invalid:shards-zero" },
+        TcpCfg { toml: toml_of(512, 4, 1, 16, 64, 0, 1, 2, 1), expect: None, label: "invalid:shards-above-256" },
+        TcpCfg { toml: toml_of(2, 0, 0, 16, 64, 0, 1, 2, 1), expect: None, label: "invalid:response-pool-capacity-zero" },
+        TcpCfg { toml: toml_of(2, 4, 5, 16, 64, 0, 1, 2, 1), expect: None, label: "invalid:prewarm-above-capacity" },
+        TcpCfg { toml: toml_of(2, 4, 1, 0, 64, 0, 1, 2, 1), expect: None, label: "invalid:read-size-zero" },
+        TcpCfg { toml: toml_of(2, 4, 1, 16, 15, 0, 1, 2, 1), expect: None, label: "invalid:max-below-read" },
+        TcpCfg { toml: toml_of(2, 4, 1, 16, 64, 0, 1, 0, 1), expect: None, label: "invalid:max-connections-zero" },
+        TcpCfg { toml: toml_of(2, 4, 1, 16, 64, 0, 1, 2, 0), expect: None, label: "invalid:buffer-pool-size-zero" },
+    ];
+    let victim: Vec<Vec<Vec<u8>>> = vec![vec![b"SET".to_vec(), b"k".to_vec(), b"v".to_vec()], vec![b"GET".to_vec(), b"k".to_vec()], vec![b"PING".to_vec()], vec![b"ECHO".to_vec(), b"a\r\nb".to_vec()]];
+    let deep: Vec<Vec<Vec<u8>>> = (0..300).map(|i| if i % 3 == 0 { vec![b"PING".to_vec()] } else if i % 3 == 1 { vec![b"SET".to_vec(), b"k".to_vec(), format!("{}", i).into_bytes()] } else { vec![b"GET".to_vec(), b"k".to_vec()] }).collect();
+    let twin_cfg = Cfg { min_pipeline: 1 << 40, batch_threshold: 1 << 20, read_size: 8192, max_buffer: 1_000_000 };
+    for (ci, case) in cases.iter().enumerate() {
+        let _ = ci;
+        let path = dir.join(format!("perf_config_{}.toml", case.label.replace(':', "_")));
+        // (the out directory survives between runs: start from nothing at this path)
+        let _ = std::fs::remove_dir_all(&path);
+        let _ = std::fs::remove_file(&path);
+        if case.toml == "<directory>" {
+            std::fs::create_dir_all(&path).expect("mkdir");
+        } else if case.toml != "<no file>" {
+            std::fs::write(&path, &case.toml).expect("write toml");
+        }
+        std::env::set_var("PERF_CONFIG_PATH", &path);
+        cx.out.count(&format!("tcp:config:{}", case.label));
+        let rt = tokio::runtime::Builder::new_multi_thread().worker_threads(2).enable_all().build().expect("runtime");
+        let mut started: Option<u16> = None;
+        let mut refused: Option<String> = None;
+        for _attempt in 0..20 {
+            // a port that is FREE right now (asked from the kernel), so that no other process — e.g. the same
+            // harness run by another builder — can be mistaken for our server
+            let port = match std::net::TcpListener::bind("127.0.0.1:0").and_then(|l| l.local_addr()) {
+                Ok(a) => a.port(),
+                Err(_) => continue,
+            };
+            let addr = format!("127.0.0.1:{}", port);
+            let a2 = addr.clone();
+            let h = rt.spawn(async move { redis_sim::production::OptimizedRedisServer::new(a2).run().await.map_err(|e| e.to_string()) });
+            // either the server comes up (connect succeeds and run() is still running) or run() returns an error
+            let up = rt.block_on(async {
+                for _ in 0..1000 {
+                    tokio::time::sleep(std::time::Duration::from_millis(10)).await;
+                    if h.is_finished() {
+                        return false;
+                    }
+                    if tokio::net::TcpStream::connect(&addr).await.is_ok() {
+                        tokio::time::sleep(std::time::Duration::from_millis(50)).await;
+                        return !h.is_finished();
+                    }
+                }
+                false
+            });
+            if up {
+                started = Some(port);
+                break;
+            }
+            let msg = rt.block_on(async { match tokio::time::timeout(std::time::Duration::from_secs(2), h).await { Ok(Ok(Err(e))) => e, Ok(Ok(Ok(()))) => "run returned Ok".into(), Ok(Err(e)) => format!("task: {}", e), Err(_) => "no answer".into() } });
+            if msg.to_lowercase().contains("address") || msg.contains("in use") {
+                continue; // the port was taken in between: next one
+            }
+            refused = Some(msg);
+            break;
+        }
+        let replay = |what: &str, obs: &str| json!({"perf_config_toml": case.toml, "case": case.label, "observed": obs, "expected": what});
+        match (&case.expect, started, &refused) {
+            (None, Some(_), _) => {
+                cx.out.violation(&format!("C04:config:invalid-accepted:{}", case.label), "the server starts with a configuration PerformanceConfig::validate must reject", replay("run() returns an error", "the server accepts connections"));
+                rt.shutdown_background();
+                continue;
+            }
+            (None, None, Some(_)) => {
+                cx.out.count("tcp:invalid-config-refused");
+                rt.shutdown_background();
+                continue;
+            }
+            (Some(_), None, r) => {
+                cx.out.violation(&format!("C04:tcp:server-did-not-start:{}", case.label), "the server did not come up with a legal configuration", replay("the server accepts connections", &format!("{:?}", r)));
+                rt.shutdown_background();
+                continue;
+            }
+            (None, None, None) => {
+                cx.out.violation(&format!("C04:tcp:server-did-not-start:{}", case.label), "no port could be bound and no error was returned", replay("an error from validate", "nothing"));
+                rt.shutdown_background();
+                continue;
+            }
+            (Some(_), Some(_), _) => {}
+        }
+        let cfg = case.expect.clone().unwrap();
+        let addr = format!("127.0.0.1:{}", started.unwrap());
+        // connections one after the other over the server-wide pool: a client that leaves mid-frame,
+        // a pipeline in pieces, the same in one write, a deep pipeline in ONE write with the client WAITING
+        let mid = frame(&[b"GET", b"abcde"]);
+        let plans: Vec<(&str, Vec<Vec<Vec<u8>>>, Vec<Vec<u8>>, bool)> = vec![
+            ("leaves-mid-frame", vec![], vec![mid[..mid.len() - 4].to_vec()], false),
+            ("pipeline-in-pieces", victim.clone(), cmd_frames(&victim), true),
+            ("pipeline-one-write", victim.clone(), vec![cmd_frames(&victim).concat()], true),
+            ("deep-one-write-client-waits", deep.clone(), vec![cmd_frames(&deep).concat()], true),
+            ("pipeline-byte-by-byte", victim.clone(), cmd_frames(&victim).concat().iter().map(|b| vec![*b]).collect(), true),
+        ];
+        for (pname, cmds, writes, check) in plans {
+            let total: usize = writes.iter().map(|w| w.len()).sum();
+            if cfg.max_buffer < 1000 && pname.starts_with("deep") && cfg.read_size > cfg.max_buffer {
+                continue;
+            }
+            let expect_n = cmds.len();
+            let a = addr.clone();
+            let w2 = writes.clone();
+            let got: Result<Vec<u8>, String> = rt.block_on(async move {
+                let mut st = tokio::net::TcpStream::connect(&a).await.map_err(|e| e.to_string())?;
+                let _ = st.set_nodelay(true);
+                let mut acc: Vec<u8> = Vec::new();
+                for w in &w2 {
+                    st.write_all(w).await.map_err(|e| e.to_string())?;
+                    tokio::task::yield_now().await;
+                }
+                // the client WAITS (does not close) until it has all replies, at most 20 s
+                let mut buf = vec![0u8; 65536];
+                let deadline = tokio::time::Instant::now() + std::time::Duration::from_secs(20);
+                while decode_replies(&acc).0.len() < expect_n {
+                    match tokio::time::timeout_at(deadline, st.read(&mut buf)).await {
+                        Ok(Ok(0)) => break,
+                        Ok(Ok(n)) => acc.extend_from_slice(&buf[..n]),
+                        Ok(Err(e)) => return Err(e.to_string()),
+                        Err(_) => break,
+                    }
+                }
+                drop(st);
+                Ok(acc)
+            });
+            cx.out.count(&format!("tcp:connection:{}", pname));
+            if !check {
+                // give the server a moment to release the buffers of the connection that left
+                rt.block_on(async { tokio::time::sleep(std::time::Duration::from_millis(20)).await });
+                continue;
+            }
+            let acc = match got {
+                Ok(a) => a,
+                Err(e) => {
+                    cx.out.violation(&format!("C04:tcp:io-error:{}", pname), "the TCP connection to the real server failed", json!({"case": case.label, "connection": pname, "error": e}));
+                    continue;
+                }
+            };
+            let (vals, rest) = decode_replies(&acc);
+            let op = format!("K {} {} {} {} {} {}", cfg.min_pipeline, cfg.batch_threshold, hl_token(), cfg.read_size, cfg.max_buffer.min(1 << 40), hex(&writes.concat()));
+            cx.out.op(op.clone(), format!("n={} end=eof{}", vals.len(), if rest > 0 { format!(" undecoded={}", rest) } else { String::new() }));
+            cx.out.case(&op, true);
+            let t = cx.runner.run(&twin_cfg, &cmd_frames(&cmds));
+            let (tvals, _) = decode_replies(&t.written);
+            let rp = json!({"perf_config_toml": case.toml, "case": case.label, "connection": pname, "bytes_sent": total, "commands": expect_n, "replies": vals.len(), "first_replies": vals.iter().take(6).map(|v| v.show()).collect::<Vec<_>>(), "expected_first": tvals.iter().take(6).map(|v| v.show()).collect::<Vec<_>>()});
+            if vals.len() < expect_n {
+                cx.out.violation("C04:tcp:reply-withheld", "a client that sent a well-formed pipeline over TCP and waits for its replies (without closing) did not receive one reply per command within 20 s", rp);
+            } else if vals != tvals || rest != 0 {
+                cx.out.violation("C04:tcp:reply-differs-from-in-process", "over TCP (accept loop, configuration from PERF_CONFIG_PATH, server-wide buffer pool) a pipeline is answered differently from the in-process handler", rp);
+            }
+        }
+        rt.shutdown_background();
+    }
+    std::env::remove_var("PERF_CONFIG_PATH");
+}
+
+/// correspondence only: the real handler vs the model on the same configuration and segments
+fn corr_only(cx: &mut Cx, cfg: &Cfg, segs: &[Vec<u8>], label: &str) {
+    let r = cx.runner.run(cfg, segs);
+    let (line, _) = line_of(&r);
+    cx.out.op(op_line(cfg, segs), line);
+    cx.out.count(label);
+    cx.out.case(&op_line(cfg, segs), true);
+}
+
+/// comparisons of the modelled code at equality, computed from the case (class 3), and the
+/// recognisers' overflow branches (class 5)
+fn boundary_corpus(cx: &mut Cx) {
+    let ping = frame(&[b"PING"]);
+    // (1) `count >= batch_threshold` with k look-alikes, threshold k-1 / k / k+1, and the gate
+    //     `buffer.len() >= min_pipeline_buffer` at len-1 / len / len+1
+    for set in [false, true] {
+        for k in 1..=4usize {
+            let mut stream = Vec::new();
+            for i in 0..k {
+                if set {
+                    stream.extend_from_slice(format!("*3\r\n$3\r\nSET\r\nX$1\r\n{}\r\n$2\r\nv{}\r\n", i, i).as_bytes());
+                } else {
+                    stream.extend_from_slice(format!("*2\r\n$3\r\nGET\r\nX$1\r\n{}\r\n", i).as_bytes());
+                }
+            }
+            stream.extend_from_slice(&ping);
+            stream.extend_from_slice(&ping);
+            let n = stream.len();
+            for thr in [k.saturating_sub(1), k, k + 1] {
+                for mp in [0usize, n - 1, n, n + 1] {
+                    let cfg = Cfg { min_pipeline: mp, batch_threshold: thr, read_size: 8192, max_buffer: 1_000_000 };
+                    corr_only(cx, &cfg, &[stream.clone()], "boundary:lookalikes-vs-threshold-and-gate");
+                }
+            }
+            // GET look-alikes followed by SET look-alikes: the second gate `buffer.len() >= min_pipeline` after the GETs
+            if !set {
+                let mut both = stream[..n - 2 * ping.len()].to_vec();
+                let after_gets = both.len();
+                both.extend_from_slice(b"*3\r\n$3\r\nSET\r\nX$1\r\nk\r\n$1\r\nv\r\n");
+                both.extend_from_slice(&ping);
+                let rem = both.len() - after_gets;
+                for mp in [rem - 1, rem, rem + 1] {
+                    let cfg = Cfg { min_pipeline: mp, batch_threshold: 1, read_size: 8192, max_buffer: 1_000_000 };
+                    corr_only(cx, &cfg, &[both.clone()], "boundary:second-gate-after-gets");
+                }
+            }
+        }
+    }
+    // (2) the gate on well-formed pipelines: min_pipeline_buffer = stream length - 1 / = / + 1
+    let cmds: Vec<Vec<Vec<u8>>> = vec![vec![b"GET".to_vec(), b"k".to_vec()], vec![b"SET".to_vec(), b"k".to_vec(), b"v".to_vec()], vec![b"GET".to_vec(), b"k".to_vec()]];
+    let stream: Vec<u8> = cmd_frames(&cmds).concat();
+    for mp in [stream.len() - 1, stream.len(), stream.len() + 1] {
+        for thr in [0usize, 1, 2, 3] {
+            let cfg = Cfg { min_pipeline: mp, batch_threshold: thr, read_size: 8192, max_buffer: 1_000_000 };
+            check_wellformed(cx, &cfg, &cmds, &[stream.clone()], "boundary:gate-at-stream-length");
+        }
+    }
+    // (3) `buf.len() < 12` / `< HEADER_LEN + 1` / `< total_needed` / `<= val_len_start`: every
+    //     look-alike of the corpus cut at EVERY byte
+    for bad in [&b"*2\r\n$3\r\nGET\r\nX$1\r\nk\r\n"[..], b"*3\r\n$3\r\nSET\r\nX$1\r\nk\r\n$1\r\nv\r\n", b"*2\r\n$3\r\nget\r\n\r$02\r\nkk\r\n", b"*3\r\n$3\r\nset\r\nX$0\r\n\r\n$0\r\n\r\n"] {
+        for c in 1..bad.len() {
+            for mp in [0usize, 60] {
+                let cfg = Cfg { min_pipeline: mp, batch_threshold: 1, read_size: 8192, max_buffer: 1_000_000 };
+                corr_only(cx, &cfg, &cut(bad, &[c]), "boundary:lookalike-cut-at-every-byte");
+            }
+        }
+    }
+    // (4) the recognisers' checked_add branches: a declared length at which key_start + key_len, key_end + 2,
+    //     val_start + val_len (+ 2) leave usize — on the fast path and in the collectors (gate open at 0)
+    let max = usize::MAX;
+    let mut frames: Vec<(Vec<u8>, &'static str)> = Vec::new();
+    for len in [max, max - 1, max - 36, max - 37, max - 38, max - 39, max - 40, 1usize << 63, (1usize << 63) - 1] {
+        frames.push((format!("*2\r\n$3\r\nGET\r\nX${}\r\nab", len).into_bytes(), "huge-key-length"));
+        frames.push((format!("*3\r\n$3\r\nSET\r\nX${}\r\nab", len).into_bytes(), "huge-key-length"));
+        frames.push((format!("*3\r\n$3\r\nSET\r\nX$1\r\nk\r\n${}\r\nab", len).into_bytes(), "huge-value-length"));
+        frames.push((format!("*3\r\n$3\r\nSET\r\nX$1\r\nk\r\n${}\r\nab", len.wrapping_sub(28)).into_bytes(), "huge-value-length"));
+    }
+    for (bad, hint) in &frames {
+        for mp in [0usize, 60] {
+            let cfg = Cfg { min_pipeline: mp, batch_threshold: 1, read_size: 8192, max_buffer: 1_000_000 };
+            check_malformed(cx, &cfg, &[], bad, hint, &[], &[bad.clone()], "boundary:length-overflow");
+            let mut s = ping.clone();
+            s.extend_from_slice(bad);
+            check_malformed(cx, &cfg, &[vec![b"PING".to_vec()]], bad, hint, &[], &[ping.clone(), bad.clone()], "boundary:length-overflow");
+        }
+    }
+    // (5) after a protocol error the handler clears its buffer and goes on reading: commands in LATER
+    //     reads are answered, commands behind the malformed frame in the SAME read are swallowed
+    for bad in [&b"?what\r\n"[..], b"*x\r\n", b"$-2\r\n", b"*1\r\n:x\r\n", b"*2\r\n$3\r\nGET\r\n$x\r\nk\r\n"] {
+        let set = frame(&[b"SET", b"k", b"v"]);
+        let get = frame(&[b"GET", b"k"]);
+        let d = Cfg::default_like();
+        corr_only(cx, &d, &[ping.clone(), bad.to_vec(), set.clone(), get.clone()], "history:after-protocol-error:later-reads");
+        corr_only(cx, &d, &[[&ping[..], bad, &set[..]].concat(), get.clone()], "history:after-protocol-error:same-read-swallowed");
+        corr_only(cx, &d, &[[&ping[..], bad].concat(), [bad, &set[..]].concat(), [&get[..], bad, &get[..]].concat(), get.clone()], "history:after-protocol-error:repeated");
+        let small = Cfg { min_pipeline: 0, batch_threshold: 1, read_size: 7, max_buffer: 1_000_000 };
+        corr_only(cx, &small, &[ping.clone(), bad.to_vec(), set.clone(), get.clone()], "history:after-protocol-error:reads-of-7");
+    }
+}
+
 fn fixed_corpus(cx: &mut Cx) {
     let d = Cfg::default_like();
     let ping = frame(&[b"PING"]);
@@ -954,13 +2177,83 @@ fn fixed_corpus(cx: &mut Cx) {
     }
 }
 
+/// the coverage audit of C04 against the eleven classes of missed inputs (also DESIGN §4 C04 "coverage audit")
+fn audit() -> serde_json::Value {
+    json!([
+      {"class": 1, "topic": "entry paths / variants never driven",
+       "covered": "ENUMERATED FROM THE SOURCE the binary was built against (source_enumeration): every Command::X arm of try_execute_command, every literal of is_stub_command / handle_stub_command, every fn of connection_optimized.rs, the variants of CommandResult / FastPathResult, the fields of ConnectionConfig — unknown ones fail the check (C04:coverage:connection-arm-not-driven / stub-not-driven / fn-not-accounted / result-variant-not-modelled / config-field-not-generated / source-scan-failed); K cases drive every arm and stub outside and inside MULTI, arity errors, data commands of every reply kind; run()'s arms Ok(0) / Ok(n) / Err / overflow / parse error / write failure / flush failure (W ops); OptimizedRedisServer::run over loopback TCP with PERF_CONFIG_PATH files (valid, missing, empty, unparsable, every validate error arm refused); redis::BufferPool",
+       "open": "TLS / ACL features are off in the pinned build: client_cert_cn arms of new() and the NOAUTH / NOPERM paths are unreachable"},
+      {"class": 2, "topic": "input alphabet",
+       "covered": "keys / values binary, empty, with CR LF, RESP look-alike content, 8191..12000 bytes (around / above read_buffer_size); command names empty / blank / CR LF / non-UTF-8 / lower case",
+       "open": "values above 12 KB (run time of the List-based model)"},
+      {"class": 3, "topic": "comparisons at equality",
+       "covered": "overflow guard stated on the input (max == read, read+1, leftover + n = max ± 1); both batching gates at stream length -1 / = / +1; look-alike count vs batch_threshold at k-1 / k / k+1; every look-alike cut at every byte (< 12, < HEADER_LEN+1, < total_needed, <= val_len_start)",
+       "open": ""},
+      {"class": 4, "topic": "configuration",
+       "covered": "the four ConnectionConfig fields through PerformanceConfig::validate: read_size 1 / 7 / 16 / 64 / 8192 / 65536, max_size = read / read+1 / usize::MAX, min_pipeline_buffer 0 / 1 / usize::MAX, batch_threshold 0 / 1 / usize::MAX; pool sizes 1..16; config FILES through the real server",
+       "open": "cargo features opt-atoi-parse / opt-itoa-encode are off (trusted base)"},
+      {"class": 5, "topic": "capacity thresholds",
+       "covered": "HEADER_LEN (source-derived); pool capacity test; the recognisers' checked_add branches (usize::MAX .. usize::MAX-40, 2^63, key and value, fast path and collectors); pipelines of 64..2049 commands in ONE read, in reads of 8192, gate closed; 300 commands in one TCP write",
+       "open": ""},
+      {"class": 6, "topic": "fault kinds",
+       "covered": "read error at every read index; poll_write failing after any number of accepted bytes (every byte position of a reply stream), Ok(0), partial writes of every size, flush failure at the 1st / 2nd / 3rd flush, the overflow path's ignored write failing, Pending polls on read / write / flush, client leaving mid-frame, panics (caught, attributed by cause)",
+       "open": "a peer that never accepts: write_all waits by design, there is no timeout to test"},
+      {"class": 7, "topic": "history shapes",
+       "covered": "successive connections on one pool; after a protocol error (later reads, same read swallowed, repeated, tiny reads); deep pipelines; MULTI blocks with every connection-level command queued and replayed by EXEC, nested MULTI, EXEC / DISCARD without MULTI",
+       "open": ""},
+      {"class": 8, "topic": "node-global state",
+       "covered": "server-wide buffer pool (hook H1b and the real server), redis::BufferPool",
+       "open": "ACL manager shared between connections (feature off); metrics (never read by logic)"},
+      {"class": 9, "topic": "observations",
+       "covered": "decoded replies (count, order, content), end state, undecoded tail; the exact BYTES the peer received and the number of reads the handler made (W ops); at EVERY read call of the handler: replies on the wire >= commands complete in the bytes delivered so far (C04:reply-withheld:until-more-input); over TCP a client that WAITS without closing (C04:tcp:reply-withheld)",
+       "open": "error texts of executor replies are compared against the sent-alone twin only"},
+      {"class": 10, "topic": "finding signatures",
+       "covered": "look-alikes by class membership + model agreement; C04:crash:whitespace-command-name by cause (first command outside MULTI with a white-space-only name, index panic, at most the earlier commands answered, must_agree with the model of the current code); any other crash on a well-formed pipeline is C04:crash:well-formed-stream",
+       "open": ""},
+      {"class": 11, "topic": "harness fragility",
+       "covered": "source read from the tree the binary was built against; a failed scan is a violation; skipped MULTI-prefix cases are counted; read sizes below 64 are not combined with multi-kilobyte frames (quadratic re-parse in code and model alike)",
+       "open": "the TCP port is asked from the kernel (bind to port 0) right before the server starts and the server task is re-checked after the first connect"}
+    ])
+}
+
+/// throw-away mutations of a private clone of /repo: after = this harness, before = harness of commit 0afddff
+fn mutations_self_tested() -> serde_json::Value {
+    json!([
+      {"mutation": "run(): the sequential drain loop stops after 128 commands per read (the shape of a round-5 seeded change)", "class": "5 capacity thresholds / 9 observations", "before": "missed (exit 0)", "after": "C04:reply-withheld:until-more-input (129 complete commands, 128 replies on the wire), C04:reply-count:missing-reply, C04:tcp:reply-withheld"},
+      {"mutation": "run(): a failed write_all `continue`s instead of `break`", "class": "6 fault kinds", "before": "model disagreement only (no-failing-input-found)", "after": "C04:write:not-a-prefix-of-the-reply-stream with the peer script and the bytes received"},
+      {"mutation": "run(): `stream.write(&write_buffer)` (one call) instead of write_all", "class": "6 fault kinds (partial writes)", "before": "missed (exit 0)", "after": "C04:write:reply-bytes-missing, C04:write:not-a-prefix-of-the-reply-stream"},
+      {"mutation": "try_execute_command: the UNWATCH arm returns without encoding a reply", "class": "1 entry paths", "before": "missed (exit 0)", "after": "C04:reply-count:missing-reply (K cases)"},
+      {"mutation": "the batching gate `>=` → `>`", "class": "3 equality", "before": "caught (1 op, look-alike at the gate by chance)", "after": "8 ops of the boundary corpus (model disagreement, look-alike input: no property-level failing input)"},
+      {"mutation": "`set_count >= batch_threshold` → `>`", "class": "3 equality", "before": "caught (5 ops)", "after": "caught (74 ops)"},
+      {"mutation": "try_fast_set: value length added with wrapping_add", "class": "5 capacity thresholds", "before": "missed (exit 0)", "after": "C04:crash:huge-value-length (attempt to add with overflow) on `*3\\r\\n$3\\r\\nSET\\r\\nX$1\\r\\nk\\r\\n$18446744073709551615\\r\\nab`"},
+      {"mutation": "PerformanceConfig::validate forgets `max_size < read_size`", "class": "4 configuration / 1 entry paths (server_optimized.rs)", "before": "missed (exit 0)", "after": "C04:config:invalid-accepted:invalid:max-below-read (the real server starts)"},
+      {"mutation": "run(): a failed flush is ignored", "class": "6 fault kinds", "before": "missed (exit 0)", "after": "model disagreement on 152 W ops (number of reads made after the failed flush); no property-level failing input: the bytes are still a prefix of the reply stream"}
+    ])
+}
+
 fn run_inner(a: &Args) {
     crate::c15::install_silent_panic_hook();
     let mut cx = Cx { out: Out::new(&a.out), runner: Runner::new() };
     let mut rng = Rng::new(a.seed);
+    let t0 = std::time::Instant::now();
+    let mut lap = |name: &str| eprintln!("[c04 timing] {} at {:.1}s", name, t0.elapsed().as_secs_f64());
     fixed_corpus(&mut cx);
+    lap("fixed");
+    deep_corpus(&mut cx);
+    lap("deep");
+    boundary_corpus(&mut cx);
+    lap("boundary");
     overflow_corpus(&mut cx);
     pooled_corpus(&mut cx);
+    write_corpus(&mut cx);
+    lap("overflow+pooled+write");
+    let variants = source_enumeration(&mut cx);
+    any_corpus(&mut cx, &variants);
+    lap("any");
+    tcp_end_to_end(&mut cx);
+    lap("tcp");
+    mirror_cases(&mut cx, &mut rng, if a.tier == "thorough" { 3000 } else { 300 });
+    lap("mirror");
     // deterministic sweep: GET/SET runs of depth 1..7 around both thresholds, whole / per-command / 1-byte
     for depth in 1..=7usize {
         for mode in 0..2 {
@@ -986,8 +2279,17 @@ fn run_inner(a: &Args) {
             pooled_random(&mut cx, &mut rng);
             continue;
         }
-        let cfg = config(&mut rng);
+        if done % 6 == 3 {
+            write_case(&mut cx, &mut rng);
+            continue;
+        }
+        if done % 12 == 1 {
+            any_case(&mut cx, &mut rng, &variants);
+            continue;
+        }
+        let mut cfg = config(&mut rng);
         let (cmds, stream, bounds) = gen_pipeline(&mut rng);
+        tame(&mut cfg, &cmds);
         if rng.chance(1, 5) {
             let mut cfg = cfg.clone();
             cfg.max_buffer = 1_000_000; // the overflow guard is exercised by the well-formed cases
@@ -1032,6 +2334,8 @@ fn run_inner(a: &Args) {
             check_wellformed(&mut cx, &cfg, &cmds, &segs, "random");
         }
     }
+    cx.out.extra.insert("audit".into(), audit());
+    cx.out.extra.insert("mutations_self_tested".into(), mutations_self_tested());
     cx.out.finish("case = one connection: configuration (min_pipeline_buffer, batch_threshold, read_buffer_size) + network segments of a pipeline of GET/SET/PING/ECHO/MULTI/EXEC/unknown commands (or a well-formed prefix followed by one malformed frame); distinct by canonical op text; non-trivial iff at least 2 commands arrive in at least 2 segments (malformed cases: always)");
 }
 
